@@ -1,17 +1,2321 @@
-//! C18 — engine not implemented yet.
+//! C18 — control endpoint executes a request only with a sufficient role.
+//!
+//! Core X1 (bounded-exhaustive enumeration request type x params x credential x endpoint
+//! configuration, every request sent to a REAL `ControlServer` on a unix socket that serves a
+//! freshly built `ControlState`) plus a small X2 search over the pairing sub-protocol, plus a
+//! malformed-line family on one long-lived connection.
+//!
+//! Seam: `handle_request_line` / `handle_request_value` are `pub(crate)`, so the only public way
+//! to reach the endpoint logic is the socket transport (`ControlServer::start`). Every accept
+//! thread of the subject lives forever, therefore all cases run in `iso` worker processes that
+//! are recycled after a bounded number of servers.
+//!
+//! Request types, the permission table, the debug-class set and the config keys are extracted
+//! from the CURRENT source of /repo at check time by a small hand-written scanner (part A); the
+//! oracle never copies them.
+//!
+//! Probes (an "effect" is a difference between the probe taken before and after ONE request on a
+//! fresh state):
+//!   DebugControl mode / target thread / breakpoints / breakpoint generation / queued io writes,
+//!   settings (Debug rendering), control mode, debug_enabled, auth token, pending restart,
+//!   ResourceControl (Debug rendering: stop flag, state, last error), commands received by the stub
+//!   resource, HMI descriptor (revision, error, customization), acknowledged HMI alarms, files under
+//!   the project root, pairing store listing and pending code, and — after one more real runtime
+//!   cycle of the program the DebugControl is attached to — every variable of the runtime and three
+//!   output bits (this is how queued variable writes, forces and releases become visible).
+//! Deliberately IGNORED (they change by themselves or are caches filled by read requests):
+//!   metrics/uptime, HMI trend samples and alarm raise/clear bookkeeping (`hmi_live` except the
+//!   acknowledged flag), the DebugVariableHandles reference table rebuilt by `debug.scopes`, the
+//!   debug stop queue drained by `debug.stops` (empty here), `Snapshot`/`MeshSnapshot` query
+//!   commands sent to the resource by read handlers, the bytes of pairing.json (mirror of the
+//!   listing), pruning of expired pairing entries, the audit channel.
 
 use crate::fw::*;
-use crate::iso::WorkerFn;
-use serde_json::Value;
+use crate::iso;
+use serde_json::{json, Map, Value};
+use std::collections::{BTreeMap, BTreeSet};
+use std::io::{BufRead, BufReader, Write};
+use std::os::unix::net::UnixStream;
+use std::path::{Path, PathBuf};
+use std::sync::atomic::{AtomicBool, AtomicU64, AtomicUsize, Ordering};
+use std::sync::{Arc, Mutex};
+use std::time::{Duration, Instant};
 
-pub fn run(_ctx: &Ctx) -> EngineResult {
-    machinery("engine C18 not implemented")
+use trust_runtime::config::ControlMode;
+use trust_runtime::control::{
+    ControlEndpoint, ControlServer, ControlState, HmiRuntimeDescriptor, SourceFile, SourceRegistry,
+};
+use trust_runtime::debug::{DebugControl, DebugSnapshot, DebugVariableHandles, RuntimeEvent};
+use trust_runtime::harness::TestHarness;
+use trust_runtime::io::IoAddress;
+use trust_runtime::metrics::RuntimeMetrics;
+use trust_runtime::scheduler::{ResourceCommand, ResourceControl, StdClock};
+use trust_runtime::security::AccessRole;
+use trust_runtime::settings::{
+    BaseSettings, DiscoverySettings, MeshSettings, RuntimeSettings, SimulationSettings, WebSettings,
+};
+use trust_runtime::watchdog::{FaultPolicy, RetainMode, WatchdogPolicy};
+use trust_runtime::web::pairing::PairingStore;
+
+// =================================================================================================
+// Roles
+// =================================================================================================
+
+const ROLE_NAMES: [&str; 4] = ["viewer", "operator", "engineer", "admin"];
+
+fn role_index(name: &str) -> Option<u8> {
+    ROLE_NAMES
+        .iter()
+        .position(|r| r.eq_ignore_ascii_case(name))
+        .map(|i| i as u8)
 }
 
-pub fn check_case(_case: &Value) -> Vec<Violation> {
-    Vec::new()
+fn role_name(r: u8) -> &'static str {
+    ROLE_NAMES.get(r as usize).copied().unwrap_or("?")
 }
 
-pub fn workers() -> Vec<(&'static str, WorkerFn)> {
-    Vec::new()
+// =================================================================================================
+// Part A — scanner: request names / permission table / debug class from the current source
+// =================================================================================================
+
+#[derive(Clone, Debug, PartialEq)]
+enum Tok {
+    Str(String),
+    Ident(String),
+    Punct(char),
+}
+
+/// Minimal Rust tokenizer: string literals (with escapes, raw strings), identifiers, punctuation;
+/// comments, char literals, lifetimes and numbers are skipped.
+fn tokenize(src: &str) -> Vec<Tok> {
+    let b: Vec<char> = src.chars().collect();
+    let mut out = Vec::new();
+    let mut i = 0;
+    while i < b.len() {
+        let c = b[i];
+        if c == '/' && i + 1 < b.len() && b[i + 1] == '/' {
+            while i < b.len() && b[i] != '\n' {
+                i += 1;
+            }
+            continue;
+        }
+        if c == '/' && i + 1 < b.len() && b[i + 1] == '*' {
+            let mut depth = 1;
+            i += 2;
+            while i < b.len() && depth > 0 {
+                if b[i] == '/' && i + 1 < b.len() && b[i + 1] == '*' {
+                    depth += 1;
+                    i += 2;
+                } else if b[i] == '*' && i + 1 < b.len() && b[i + 1] == '/' {
+                    depth -= 1;
+                    i += 2;
+                } else {
+                    i += 1;
+                }
+            }
+            continue;
+        }
+        // raw strings r"…", r#"…"#, br"…"
+        if (c == 'r' || (c == 'b' && i + 1 < b.len() && b[i + 1] == 'r'))
+            && !(i > 0 && (b[i - 1].is_alphanumeric() || b[i - 1] == '_'))
+        {
+            let mut j = if c == 'b' { i + 2 } else { i + 1 };
+            let mut hashes = 0;
+            while j < b.len() && b[j] == '#' {
+                hashes += 1;
+                j += 1;
+            }
+            if j < b.len() && b[j] == '"' {
+                j += 1;
+                let start = j;
+                let mut end = None;
+                while j < b.len() {
+                    if b[j] == '"' {
+                        let mut k = 0;
+                        while k < hashes && j + 1 + k < b.len() && b[j + 1 + k] == '#' {
+                            k += 1;
+                        }
+                        if k == hashes {
+                            end = Some(j);
+                            break;
+                        }
+                    }
+                    j += 1;
+                }
+                let e = end.unwrap_or(b.len());
+                out.push(Tok::Str(b[start..e].iter().collect()));
+                i = (e + 1 + hashes).min(b.len());
+                continue;
+            }
+        }
+        if c == '"' {
+            let mut s = String::new();
+            i += 1;
+            while i < b.len() && b[i] != '"' {
+                if b[i] == '\\' && i + 1 < b.len() {
+                    match b[i + 1] {
+                        'n' => s.push('\n'),
+                        't' => s.push('\t'),
+                        'r' => s.push('\r'),
+                        '0' => s.push('\0'),
+                        other => s.push(other),
+                    }
+                    i += 2;
+                } else {
+                    s.push(b[i]);
+                    i += 1;
+                }
+            }
+            i += 1;
+            out.push(Tok::Str(s));
+            continue;
+        }
+        if c == '\'' {
+            // char literal or lifetime
+            if i + 2 < b.len() && b[i + 1] == '\\' {
+                let mut j = i + 2;
+                while j < b.len() && b[j] != '\'' {
+                    j += 1;
+                }
+                i = j + 1;
+                continue;
+            }
+            if i + 2 < b.len() && b[i + 2] == '\'' {
+                i += 3;
+                continue;
+            }
+            i += 1; // lifetime tick
+            continue;
+        }
+        if c.is_alphabetic() || c == '_' {
+            let start = i;
+            while i < b.len() && (b[i].is_alphanumeric() || b[i] == '_') {
+                i += 1;
+            }
+            out.push(Tok::Ident(b[start..i].iter().collect()));
+            continue;
+        }
+        if c.is_ascii_digit() {
+            while i < b.len() && (b[i].is_alphanumeric() || b[i] == '_' || b[i] == '.') {
+                // stop at `..` ranges
+                if b[i] == '.' && i + 1 < b.len() && b[i + 1] == '.' {
+                    break;
+                }
+                i += 1;
+            }
+            continue;
+        }
+        if !c.is_whitespace() {
+            out.push(Tok::Punct(c));
+        }
+        i += 1;
+    }
+    out
+}
+
+/// Token range of the body (between the outer braces) of `fn name`.
+fn fn_body<'a>(toks: &'a [Tok], name: &str) -> Option<&'a [Tok]> {
+    let mut i = 0;
+    while i + 1 < toks.len() {
+        if toks[i] == Tok::Ident("fn".into()) && toks[i + 1] == Tok::Ident(name.into()) {
+            let mut j = i + 2;
+            while j < toks.len() && toks[j] != Tok::Punct('{') {
+                if toks[j] == Tok::Punct(';') {
+                    return None;
+                }
+                j += 1;
+            }
+            let start = j + 1;
+            let mut depth = 0i32;
+            while j < toks.len() {
+                match toks[j] {
+                    Tok::Punct('{') => depth += 1,
+                    Tok::Punct('}') => {
+                        depth -= 1;
+                        if depth == 0 {
+                            return Some(&toks[start..j]);
+                        }
+                    }
+                    _ => {}
+                }
+                j += 1;
+            }
+            return None;
+        }
+        i += 1;
+    }
+    None
+}
+
+/// One match arm with string-literal (or `_`) patterns: (patterns, rhs tokens).
+fn string_arms(toks: &[Tok]) -> Vec<(Vec<String>, Vec<Tok>)> {
+    let mut out = Vec::new();
+    let mut i = 0;
+    while i < toks.len() {
+        let mut pats = Vec::new();
+        let mut j = i;
+        let is_default = toks[j] == Tok::Ident("_".into());
+        if is_default {
+            pats.push("_".to_string());
+            j += 1;
+        } else {
+            while let Some(Tok::Str(s)) = toks.get(j) {
+                pats.push(s.clone());
+                j += 1;
+                if toks.get(j) == Some(&Tok::Punct('|')) {
+                    j += 1;
+                } else {
+                    break;
+                }
+            }
+        }
+        if !pats.is_empty()
+            && toks.get(j) == Some(&Tok::Punct('='))
+            && toks.get(j + 1) == Some(&Tok::Punct('>'))
+            && (!is_default || i == 0 || matches!(toks[i - 1], Tok::Punct(',') | Tok::Punct('}') | Tok::Punct('{')))
+        {
+            let mut k = j + 2;
+            let mut rhs = Vec::new();
+            let mut depth = 0i32;
+            while k < toks.len() {
+                match &toks[k] {
+                    Tok::Punct('{') | Tok::Punct('(') | Tok::Punct('[') => depth += 1,
+                    Tok::Punct('}') | Tok::Punct(')') | Tok::Punct(']') => {
+                        depth -= 1;
+                        if depth < 0 {
+                            break;
+                        }
+                        if depth == 0 && toks[k] == Tok::Punct('}') && rhs.first() == Some(&Tok::Punct('{')) {
+                            rhs.push(toks[k].clone());
+                            break;
+                        }
+                    }
+                    Tok::Punct(',') if depth == 0 => break,
+                    _ => {}
+                }
+                rhs.push(toks[k].clone());
+                k += 1;
+            }
+            out.push((pats, rhs));
+            i = j + 2; // continue inside the rhs too (nested matches)
+            continue;
+        }
+        i += 1;
+    }
+    out
+}
+
+fn roles_in(toks: &[Tok]) -> Vec<u8> {
+    let mut out = Vec::new();
+    for w in toks.windows(4) {
+        if w[0] == Tok::Ident("AccessRole".into()) && w[1] == Tok::Punct(':') && w[2] == Tok::Punct(':') {
+            if let Tok::Ident(n) = &w[3] {
+                if let Some(r) = role_index(n) {
+                    out.push(r);
+                }
+            }
+        }
+    }
+    out
+}
+
+#[derive(Clone, Debug)]
+pub enum RoleSpec {
+    /// the arm is literally `AccessRole::X`
+    Lit(u8),
+    /// the arm calls a function of the params; `min` = lowest role literal in that function
+    Dyn(u8),
+}
+
+#[derive(Clone, Debug, Default)]
+pub struct Table {
+    /// request name -> handler file stem that dispatches it
+    pub dispatch: BTreeMap<String, String>,
+    /// explicit arms of the permission table
+    pub roles: BTreeMap<String, RoleSpec>,
+    pub default_role: u8,
+    /// literals of `is_debug_request` (information only)
+    pub debug_gate: BTreeSet<String>,
+    /// keys matched in `handle_config_set`
+    pub config_keys: Vec<String>,
+}
+
+impl Table {
+    pub fn required(&self, ty: &str) -> (RoleSpec, bool) {
+        match self.roles.get(ty) {
+            Some(r) => (r.clone(), true),
+            None => (RoleSpec::Lit(self.default_role), false),
+        }
+    }
+    /// debug class = dispatched by handlers/debug.rs or handlers/variables.rs
+    pub fn debug_class(&self, ty: &str) -> bool {
+        matches!(self.dispatch.get(ty).map(String::as_str), Some("debug") | Some("variables"))
+    }
+    pub fn all_names(&self) -> Vec<String> {
+        let mut s: BTreeSet<String> = self.dispatch.keys().cloned().collect();
+        s.extend(self.roles.keys().cloned());
+        s.extend(self.debug_gate.iter().cloned());
+        s.into_iter().collect()
+    }
+}
+
+pub fn scan_sources(repo: &Path) -> Result<Table, String> {
+    let base = repo.join("crates/trust-runtime/src");
+    let control_path = base.join("control.rs");
+    let control = std::fs::read_to_string(&control_path).map_err(|e| format!("read {control_path:?}: {e}"))?;
+    let ctoks = tokenize(&control);
+    let mut t = Table::default();
+
+    let hdir = base.join("control/handlers");
+    let mut files: Vec<PathBuf> = std::fs::read_dir(&hdir)
+        .map_err(|e| format!("read_dir {hdir:?}: {e}"))?
+        .filter_map(|e| e.ok().map(|e| e.path()))
+        .filter(|p| p.extension().and_then(|e| e.to_str()) == Some("rs"))
+        .collect();
+    files.sort();
+    for f in &files {
+        let stem = f.file_stem().and_then(|s| s.to_str()).unwrap_or("").to_string();
+        let text = std::fs::read_to_string(f).map_err(|e| format!("read {f:?}: {e}"))?;
+        let toks = tokenize(&text);
+        for (pats, _) in string_arms(&toks) {
+            for p in pats {
+                if p != "_" {
+                    t.dispatch.entry(p).or_insert_with(|| stem.clone());
+                }
+            }
+        }
+    }
+    if t.dispatch.len() < 10 {
+        return Err(format!("scanner found only {} dispatched request names", t.dispatch.len()));
+    }
+
+    let body = fn_body(&ctoks, "required_role_for_control_request")
+        .ok_or("fn required_role_for_control_request not found in control.rs")?;
+    let mut default_seen = false;
+    for (pats, rhs) in string_arms(body) {
+        let inner: Vec<Tok> = if rhs.first() == Some(&Tok::Punct('{')) && rhs.last() == Some(&Tok::Punct('}')) {
+            rhs[1..rhs.len() - 1].to_vec()
+        } else {
+            rhs.clone()
+        };
+        let lits = roles_in(&inner);
+        let spec = if inner.len() == 4 && lits.len() == 1 {
+            RoleSpec::Lit(lits[0])
+        } else {
+            // a call: find callee and scan it
+            let mut callee = None;
+            for w in inner.windows(2) {
+                if let (Tok::Ident(n), Tok::Punct('(')) = (&w[0], &w[1]) {
+                    callee = Some(n.clone());
+                    break;
+                }
+            }
+            let mut all = lits.clone();
+            if let Some(c) = callee {
+                if let Some(cb) = fn_body(&ctoks, &c) {
+                    all.extend(roles_in(cb));
+                }
+            }
+            match all.iter().min() {
+                Some(m) => RoleSpec::Dyn(*m),
+                None => return Err(format!("cannot derive a role for table arm {pats:?}")),
+            }
+        };
+        for p in pats {
+            if p == "_" {
+                match spec {
+                    RoleSpec::Lit(r) => t.default_role = r,
+                    RoleSpec::Dyn(r) => t.default_role = r,
+                }
+                default_seen = true;
+            } else {
+                t.roles.insert(p, spec.clone());
+            }
+        }
+    }
+    if t.roles.len() < 10 {
+        return Err(format!("scanner found only {} permission-table entries", t.roles.len()));
+    }
+    if !default_seen {
+        // no default arm: unknown names cannot be dispatched at all; treat as admin-only
+        t.default_role = 3;
+    }
+    if let Some(b) = fn_body(&ctoks, "is_debug_request") {
+        for tk in b {
+            if let Tok::Str(s) = tk {
+                t.debug_gate.insert(s.clone());
+            }
+        }
+    }
+    if let Some(b) = fn_body(&ctoks, "handle_config_set") {
+        let mut keys = BTreeSet::new();
+        for (pats, _) in string_arms(b) {
+            for p in pats {
+                if p.contains('.') && !p.contains(' ') {
+                    keys.insert(p);
+                }
+            }
+        }
+        t.config_keys = keys.into_iter().collect();
+    }
+    Ok(t)
+}
+
+// =================================================================================================
+// Part B — a fresh endpoint: real runtime + DebugControl + stub resource + ControlServer on a socket
+// =================================================================================================
+
+const PROGRAM: &str = "PROGRAM Main\nVAR_EXTERNAL\n    g_forced : DINT;\n    g_out : BOOL;\nEND_VAR\nVAR\n    run : BOOL := TRUE;\n    // @hmi(min=0, max=100)\n    speed : REAL := 120.0;\nEND_VAR\ng_forced := 1;\ng_out := FALSE;\nEND_PROGRAM\n\nCONFIGURATION Conf\nVAR_GLOBAL\n    g_set : DINT := 5;\n    g_force : DINT := 5;\n    g_forced : DINT := 5;\n    g_out AT %QX0.1 : BOOL;\nEND_VAR\nRESOURCE Res ON CPU\nPROGRAM Main : Main;\nEND_RESOURCE\nEND_CONFIGURATION\n";
+const SOURCE_PATH: &str = "main.st";
+const FILE_ID: u32 = 0;
+const ADMIN_TOKEN: &str = "adm-S3cret-token";
+const WRONG_TOKEN: &str = "not-the-token";
+const FILE_ADMIN_TOKEN: &str = "tok-admin-role-loaded-from-file";
+const T0: u64 = 1_700_000_000;
+const QUIT_KEY: &str = "__tv_c18_quit__";
+
+static DIR_COUNTER: AtomicU64 = AtomicU64::new(0);
+static SERVERS_STARTED: AtomicUsize = AtomicUsize::new(0);
+static LAST_PANIC: Mutex<Option<String>> = Mutex::new(None);
+
+fn install_panic_recorder() {
+    std::panic::set_hook(Box::new(|info| {
+        let msg = if let Some(s) = info.payload().downcast_ref::<&str>() {
+            s.to_string()
+        } else if let Some(s) = info.payload().downcast_ref::<String>() {
+            s.clone()
+        } else {
+            "panic".to_string()
+        };
+        let loc = info.location().map(|l| l.file().rsplit('/').next().unwrap_or("").to_string()).unwrap_or_default();
+        if let Ok(mut g) = LAST_PANIC.lock() {
+            *g = Some(format!("{loc}: {msg}"));
+        }
+    }));
+}
+
+fn take_panic() -> Option<String> {
+    LAST_PANIC.lock().ok().and_then(|mut g| g.take())
+}
+
+#[derive(Clone, Copy, Debug, PartialEq, Eq)]
+pub struct Cfg {
+    pub token: bool,
+    pub debug: bool,
+    pub pairing: bool,
+    pub production: bool,
+}
+
+impl Cfg {
+    fn to_json(self) -> Value {
+        json!({"token": self.token, "debug": self.debug, "pairing": self.pairing, "production": self.production})
+    }
+    fn from_json(v: &Value) -> Cfg {
+        Cfg {
+            token: v["token"].as_bool().unwrap_or(true),
+            debug: v["debug"].as_bool().unwrap_or(true),
+            pairing: v["pairing"].as_bool().unwrap_or(true),
+            production: v["production"].as_bool().unwrap_or(false),
+        }
+    }
+    fn label(self) -> String {
+        format!(
+            "token={} debug={} pairing={} mode={}",
+            if self.token { "set" } else { "unset" },
+            if self.debug { "on" } else { "off" },
+            if self.pairing { "present" } else { "absent" },
+            if self.production { "production" } else { "debug" }
+        )
+    }
+}
+
+fn runtime_settings() -> RuntimeSettings {
+    RuntimeSettings::new(
+        BaseSettings {
+            log_level: "info".into(),
+            watchdog: WatchdogPolicy::default(),
+            fault_policy: FaultPolicy::SafeHalt,
+            retain_mode: RetainMode::None,
+            retain_save_interval: None,
+        },
+        WebSettings { enabled: false, listen: "127.0.0.1:0".into(), auth: "local".into(), tls: false },
+        DiscoverySettings { enabled: false, service_name: "truST".into(), advertise: false, interfaces: Vec::new() },
+        MeshSettings {
+            enabled: false,
+            listen: "127.0.0.1:0".into(),
+            tls: false,
+            auth_token: None,
+            publish: Vec::new(),
+            subscribe: indexmap::IndexMap::new(),
+        },
+        SimulationSettings { enabled: false, time_scale: 1, mode_label: "production".into(), warning: "".into() },
+    )
+}
+
+pub struct Env {
+    dir: PathBuf,
+    root: PathBuf,
+    harness: TestHarness,
+    debug: DebugControl,
+    state: Arc<ControlState>,
+    sock: PathBuf,
+    cmd_log: Arc<Mutex<Vec<String>>>,
+    clock: Arc<AtomicU64>,
+    store: Option<Arc<PairingStore>>,
+    /// credential name -> token string
+    creds: BTreeMap<String, String>,
+    pairing_baseline: String,
+    seed_code: Option<String>,
+    victim_id: Option<String>,
+    alarm_id: Option<String>,
+    token_ttl: u64,
+    _server: ControlServer,
+}
+
+impl Drop for Env {
+    fn drop(&mut self) {
+        let mut updates = indexmap::IndexMap::new();
+        updates.insert(smol_str::SmolStr::new(QUIT_KEY), trust_runtime::value::Value::Bool(true));
+        let _ = self.state.resource.send_command(ResourceCommand::MeshApply { updates });
+        let _ = std::fs::remove_dir_all(&self.dir);
+    }
+}
+
+fn fresh_dir(base: &Path) -> PathBuf {
+    let n = DIR_COUNTER.fetch_add(1, Ordering::Relaxed);
+    let d = base.join(format!("{}-{}", std::process::id(), n));
+    let _ = std::fs::remove_dir_all(&d);
+    std::fs::create_dir_all(&d).expect("create case dir");
+    d
+}
+
+fn claim_at(store: &PairingStore, clock: &AtomicU64, t: u64, role: AccessRole) -> Result<(String, String), String> {
+    clock.store(t, Ordering::SeqCst);
+    let code = store.start_pairing();
+    let token = store.claim(&code.code, Some(role)).ok_or("setup claim failed")?;
+    let tail: String = token.chars().rev().take(4).collect::<String>().chars().rev().collect();
+    let id = store
+        .list()
+        .into_iter()
+        .find(|e| e.created_at == t && e.tail.ends_with(&tail))
+        .map(|e| e.id)
+        .ok_or("setup: claimed token not listed")?;
+    Ok((token, id))
+}
+
+fn canon_list(store: &PairingStore, now: u64) -> String {
+    let mut out = Vec::new();
+    for e in store.list() {
+        if e.expires_at < now {
+            continue; // pruning of expired entries is not an effect
+        }
+        out.push(format!("{}|{}|{}|{}|{}|{}", e.id, e.enabled, e.role.as_str(), e.created_at, e.expires_at, e.tail));
+    }
+    out.join(";")
+}
+
+/// `empty_store`: pairing store without any pre-made token (used by the X2 search).
+pub fn build_env(cfg: Cfg, base: &Path, empty_store: bool) -> Result<Env, String> {
+    let dir = fresh_dir(base);
+    let root = dir.join("root");
+    std::fs::create_dir_all(&root).map_err(|e| format!("mkdir root: {e}"))?;
+    std::fs::write(root.join("hmi.toml"), "[write]\nenabled = true\nallow = [\"Main.run\"]\n")
+        .map_err(|e| format!("write hmi.toml: {e}"))?;
+
+    let mut harness = TestHarness::from_source(PROGRAM).map_err(|e| format!("harness program does not compile: {e:?}"))?;
+    let debug = harness.runtime_mut().enable_debug();
+    // seeds that make releases / clears observable
+    debug.force_global("g_forced", trust_runtime::value::Value::DInt(99));
+    if let Ok(a) = IoAddress::parse("%QX0.1") {
+        debug.force_io(a, trust_runtime::value::Value::Bool(true));
+    }
+    debug.set_breakpoints_for_file(FILE_ID, Vec::new());
+    let r = harness.cycle();
+    if !r.errors.is_empty() {
+        return Err(format!("baseline cycle failed: {:?}", r.errors));
+    }
+    let snapshot = DebugSnapshot { storage: harness.runtime().storage().clone(), now: harness.runtime().current_time() };
+
+    let (resource, cmd_rx) = ResourceControl::stub(StdClock::new());
+    let cmd_log: Arc<Mutex<Vec<String>>> = Arc::new(Mutex::new(Vec::new()));
+    {
+        let log = cmd_log.clone();
+        let snap = snapshot.clone();
+        std::thread::Builder::new()
+            .stack_size(256 << 10)
+            .spawn(move || {
+                while let Ok(cmd) = cmd_rx.recv() {
+                    match cmd {
+                        ResourceCommand::Snapshot { respond_to } => {
+                            let _ = respond_to.send(snap.clone()); // query, not logged
+                        }
+                        ResourceCommand::MeshSnapshot { respond_to, .. } => {
+                            let _ = respond_to.send(indexmap::IndexMap::new()); // query, not logged
+                        }
+                        ResourceCommand::ReloadBytecode { bytes, respond_to } => {
+                            log.lock().unwrap().push(format!("ReloadBytecode({} bytes)", bytes.len()));
+                            let _ = respond_to.send(Err(trust_runtime::error::RuntimeError::ControlError("stub resource".into())));
+                        }
+                        ResourceCommand::MeshApply { updates } => {
+                            if updates.contains_key(QUIT_KEY) {
+                                break;
+                            }
+                            log.lock().unwrap().push(format!("MeshApply({} updates)", updates.len()));
+                        }
+                        other => log.lock().unwrap().push(format!("{other:?}")),
+                    }
+                }
+            })
+            .map_err(|e| format!("spawn watcher: {e}"))?;
+    }
+
+    let sources = SourceRegistry::new(vec![SourceFile { id: FILE_ID, path: PathBuf::from(SOURCE_PATH), text: PROGRAM.to_string() }]);
+    let hmi_descriptor = Arc::new(Mutex::new(HmiRuntimeDescriptor::from_sources(Some(&root), &sources)));
+
+    // pairing store with an injected clock
+    let clock = Arc::new(AtomicU64::new(T0));
+    let mut creds: BTreeMap<String, String> = BTreeMap::new();
+    creds.insert("wrong".into(), WRONG_TOKEN.into());
+    creds.insert("admin".into(), ADMIN_TOKEN.into());
+    let mut store = None;
+    let mut pairing_baseline = String::new();
+    let mut seed_code = None;
+    let mut victim_id = None;
+    let mut token_ttl = 0u64;
+    if cfg.pairing {
+        let path = dir.join("pairing.json");
+        if !empty_store {
+            // the only way to obtain an admin-role pairing token is a stored file (claim caps at engineer)
+            let file = json!({"tokens":[{"id":"pair-file-admin","token":FILE_ADMIN_TOKEN,"created_at":T0,"enabled":true,"role":"admin","expires_at":T0 + 10 * 365 * 86400}]});
+            std::fs::write(&path, file.to_string()).map_err(|e| format!("write pairing file: {e}"))?;
+        }
+        let c = clock.clone();
+        let s = Arc::new(PairingStore::with_clock(path, Arc::new(move || c.load(Ordering::SeqCst))));
+        if !empty_store {
+            if s.validate_with_role(FILE_ADMIN_TOKEN) == Some(AccessRole::Admin) {
+                creds.insert("pair:admin".into(), FILE_ADMIN_TOKEN.into());
+            }
+            let (tok_e, id_e) = claim_at(&s, &clock, T0 + 1, AccessRole::Engineer)?;
+            let e = s.list().into_iter().find(|e| e.id == id_e).ok_or("setup: expired-token entry missing")?;
+            token_ttl = e.expires_at.saturating_sub(e.created_at);
+            if token_ttl < 1000 {
+                return Err(format!("pairing token TTL {token_ttl}s too small for the setup timeline"));
+            }
+            let t1 = T0 + 1 + token_ttl - 100;
+            let (tv, _) = claim_at(&s, &clock, t1, AccessRole::Viewer)?;
+            let (to, _) = claim_at(&s, &clock, t1 + 1, AccessRole::Operator)?;
+            let (te, _) = claim_at(&s, &clock, t1 + 2, AccessRole::Engineer)?;
+            let (tr, id_r) = claim_at(&s, &clock, t1 + 3, AccessRole::Engineer)?;
+            if !s.revoke(&id_r) {
+                return Err("setup: revoke failed".into());
+            }
+            let (_victim, id_v) = claim_at(&s, &clock, t1 + 4, AccessRole::Operator)?;
+            victim_id = Some(id_v);
+            clock.store(t1 + 10, Ordering::SeqCst);
+            seed_code = Some(s.start_pairing().code);
+            let t2 = T0 + 1 + token_ttl + 5;
+            pairing_baseline = canon_list(&s, t2);
+            clock.store(t2, Ordering::SeqCst); // the first token is now expired but still stored
+            creds.insert("pair:viewer".into(), tv);
+            creds.insert("pair:operator".into(), to);
+            creds.insert("pair:engineer".into(), te);
+            creds.insert("revoked".into(), tr);
+            creds.insert("expired".into(), tok_e);
+        }
+        store = Some(s);
+    } else {
+        // no store: these strings are just unknown tokens
+        creds.insert("pair:engineer".into(), "tok-engineer-but-no-store".into());
+    }
+
+    let mut events = std::collections::VecDeque::new();
+    events.push_back(RuntimeEvent::CycleStart { cycle: 1, time: trust_runtime::value::Duration::from_millis(0) });
+    events.push_back(RuntimeEvent::Fault { error: "seeded fault".into(), time: trust_runtime::value::Duration::from_millis(1) });
+
+    let state = ControlState {
+        debug: debug.clone(),
+        resource,
+        metadata: Arc::new(Mutex::new(harness.runtime().metadata_snapshot())),
+        sources,
+        io_snapshot: Arc::new(Mutex::new(None)),
+        pending_restart: Arc::new(Mutex::new(None)),
+        auth_token: Arc::new(Mutex::new(if cfg.token { Some(ADMIN_TOKEN.into()) } else { None })),
+        control_requires_auth: false,
+        control_mode: Arc::new(Mutex::new(if cfg.production { ControlMode::Production } else { ControlMode::Debug })),
+        audit_tx: None,
+        metrics: Arc::new(Mutex::new(RuntimeMetrics::default())),
+        events: Arc::new(Mutex::new(events)),
+        settings: Arc::new(Mutex::new(runtime_settings())),
+        project_root: Some(root.clone()),
+        resource_name: "RESOURCE".into(),
+        io_health: Arc::new(Mutex::new(Vec::new())),
+        debug_enabled: Arc::new(AtomicBool::new(cfg.debug)),
+        debug_variables: Arc::new(Mutex::new(DebugVariableHandles::new())),
+        hmi_live: Arc::new(Mutex::new(trust_runtime::hmi::HmiLiveState::default())),
+        hmi_descriptor,
+        historian: None,
+        pairing: store.clone(),
+    };
+    // raise the HMI alarm the same way a read request would (so that `hmi.alarm.ack` has a target)
+    let mut alarm_id = None;
+    {
+        let md = state.metadata.lock().unwrap();
+        let desc = state.hmi_descriptor.lock().unwrap().clone();
+        let schema = trust_runtime::hmi::build_schema("RESOURCE", &md, Some(&snapshot), true, Some(&desc.customization));
+        let values = trust_runtime::hmi::build_values("RESOURCE", &md, Some(&snapshot), true, None);
+        let mut live = state.hmi_live.lock().unwrap();
+        trust_runtime::hmi::update_live_state(&mut live, &schema, &values);
+        let view = trust_runtime::hmi::build_alarm_view(&live, 100);
+        if let Some(a) = view.active.first() {
+            alarm_id = Some(a.id.clone());
+        }
+    }
+    let state = Arc::new(state);
+    let sock = dir.join("s");
+    let server = ControlServer::start(ControlEndpoint::Unix(sock.clone()), state.clone())
+        .map_err(|e| format!("ControlServer::start: {e:?}"))?;
+    SERVERS_STARTED.fetch_add(1, Ordering::Relaxed);
+    Ok(Env {
+        dir,
+        root,
+        harness,
+        debug,
+        state,
+        sock,
+        cmd_log,
+        clock,
+        store,
+        creds,
+        pairing_baseline,
+        seed_code,
+        victim_id,
+        alarm_id,
+        token_ttl,
+        _server: server,
+    })
+}
+
+fn fnv(bytes: &[u8]) -> u64 {
+    let mut h: u64 = 0xcbf29ce484222325;
+    for b in bytes {
+        h ^= *b as u64;
+        h = h.wrapping_mul(0x100000001b3);
+    }
+    h
+}
+
+fn walk_files(dir: &Path, rel: &str, out: &mut BTreeMap<String, String>) {
+    let Ok(rd) = std::fs::read_dir(dir) else { return };
+    for e in rd.flatten() {
+        let p = e.path();
+        let name = format!("{rel}/{}", e.file_name().to_string_lossy());
+        if p.is_dir() {
+            out.insert(format!("file:{name}/"), "dir".into());
+            walk_files(&p, &name, out);
+        } else {
+            let data = std::fs::read(&p).unwrap_or_default();
+            out.insert(format!("file:{name}"), format!("{}b/{:016x}", data.len(), fnv(&data)));
+        }
+    }
+}
+
+impl Env {
+    /// Probe of everything a request could change. `after` = destructive variant (claims the seed
+    /// code, lists the store); the baseline variant uses values recorded at setup instead.
+    pub fn probe(&mut self, after: bool) -> BTreeMap<String, String> {
+        let mut m = BTreeMap::new();
+        let st = self.state.clone();
+        m.insert("debug.mode".into(), format!("{:?}", self.debug.mode()));
+        m.insert("debug.target_thread".into(), format!("{:?}", self.debug.target_thread()));
+        let bps: Vec<String> = self
+            .debug
+            .breakpoints()
+            .iter()
+            .map(|b| format!("{}:{}-{}", b.location.file_id, b.location.start, b.location.end))
+            .collect();
+        m.insert("debug.breakpoints".into(), bps.join(","));
+        m.insert("debug.bp_generation".into(), format!("{:?}", self.debug.breakpoint_generation(FILE_ID)));
+        m.insert("debug.io_writes".into(), format!("{:?}", self.debug.drain_io_writes()));
+        m.insert("settings".into(), format!("{:?}", *st.settings.lock().unwrap()));
+        m.insert("control_mode".into(), format!("{:?}", *st.control_mode.lock().unwrap()));
+        m.insert("debug_enabled".into(), st.debug_enabled.load(Ordering::Relaxed).to_string());
+        m.insert("auth_token".into(), format!("{:?}", *st.auth_token.lock().unwrap()));
+        m.insert("pending_restart".into(), format!("{:?}", *st.pending_restart.lock().unwrap()));
+        m.insert("resource".into(), format!("{:?}", st.resource));
+        {
+            // the watcher thread logs asynchronously: a query that it answers in order is the barrier
+            let (tx, rx) = std::sync::mpsc::channel();
+            let _ = st.resource.send_command(ResourceCommand::MeshSnapshot { names: Vec::new(), respond_to: tx });
+            if rx.recv_timeout(Duration::from_secs(30)).is_err() {
+                m.insert("resource.watcher".into(), "no answer from the command watcher".into());
+            }
+        }
+        m.insert("resource.commands".into(), self.cmd_log.lock().unwrap().join(";"));
+        m.insert("events.len".into(), st.events.lock().unwrap().len().to_string());
+        {
+            let d = st.hmi_descriptor.lock().unwrap();
+            m.insert("hmi.schema_revision".into(), d.schema_revision.to_string());
+            m.insert("hmi.last_error".into(), format!("{:?}", d.last_error));
+            m.insert("hmi.customization".into(), format!("{:016x}", fnv(format!("{:?}", d.customization).as_bytes())));
+        }
+        {
+            let live = st.hmi_live.lock().unwrap();
+            let view = trust_runtime::hmi::build_alarm_view(&live, 100);
+            let acked: Vec<String> = view.active.iter().map(|a| format!("{}={}", a.id, a.acknowledged)).collect();
+            let ack_events = view.history.iter().filter(|h| h.event.contains("ack")).count();
+            m.insert("hmi.alarms".into(), format!("{};ack_events={}", acked.join(","), ack_events));
+        }
+        walk_files(&self.root.clone(), "", &mut m);
+        // one more real cycle: queued writes / forces / releases become variable values
+        if after {
+            // a request may have paused the debugger or set a breakpoint: never let the cycle block
+            self.debug.clear_breakpoints();
+            self.debug.continue_run();
+        }
+        let r = self.harness.cycle();
+        m.insert("runtime.cycle_errors".into(), format!("{:?}", r.errors));
+        for (k, v) in crate::dump::dump_runtime(self.harness.runtime()) {
+            m.insert(format!("var:{k}"), v);
+        }
+        for a in ["%QX0.0", "%QX0.1", "%QX0.2"] {
+            m.insert(format!("io:{a}"), format!("{:?}", self.harness.get_direct_output(a)));
+        }
+        if let Some(store) = self.store.clone() {
+            if after {
+                let now = self.clock.load(Ordering::SeqCst);
+                m.insert("pairing.list".into(), canon_list(&store, now));
+                if let Some(code) = &self.seed_code {
+                    m.insert("pairing.pending".into(), store.claim(code, None).is_some().to_string());
+                }
+            } else {
+                m.insert("pairing.list".into(), self.pairing_baseline.clone());
+                if self.seed_code.is_some() {
+                    m.insert("pairing.pending".into(), "true".into());
+                }
+            }
+        }
+        m
+    }
+
+    fn subst(&self, v: &Value) -> Value {
+        match v {
+            Value::String(s) => match s.as_str() {
+                "$ALARM_ID" => json!(self.alarm_id.clone().unwrap_or_else(|| "no-alarm".into())),
+                "$PAIR_CODE" => json!(self.seed_code.clone().unwrap_or_else(|| "000000".into())),
+                "$VICTIM_ID" => json!(self.victim_id.clone().unwrap_or_else(|| "pair-0".into())),
+                _ => v.clone(),
+            },
+            Value::Array(a) => Value::Array(a.iter().map(|x| self.subst(x)).collect()),
+            Value::Object(o) => Value::Object(o.iter().map(|(k, x)| (k.clone(), self.subst(x))).collect()),
+            _ => v.clone(),
+        }
+    }
+}
+
+#[derive(Clone, Debug, Default)]
+pub struct Reply {
+    /// raw reply line (None = connection closed / timeout without a reply)
+    pub raw: Option<String>,
+    pub ok: Option<bool>,
+    pub has_result: bool,
+    pub error: Option<String>,
+    pub io_error: Option<String>,
+}
+
+fn parse_reply(line: &str) -> Reply {
+    let mut r = Reply { raw: Some(line.to_string()), ..Default::default() };
+    if let Ok(Value::Object(o)) = serde_json::from_str::<Value>(line) {
+        r.ok = o.get("ok").and_then(Value::as_bool);
+        r.has_result = o.get("result").map(|v| !v.is_null()).unwrap_or(false);
+        r.error = o.get("error").and_then(Value::as_str).map(str::to_string);
+    }
+    r
+}
+
+fn read_reply(reader: &mut BufReader<UnixStream>) -> Reply {
+    let mut line = String::new();
+    match reader.read_line(&mut line) {
+        Ok(0) => Reply { io_error: Some("connection closed by the server without a reply".into()), ..Default::default() },
+        Ok(_) => parse_reply(line.trim_end_matches(['\n', '\r'])),
+        Err(e) => Reply { io_error: Some(format!("no reply: {e}")), ..Default::default() },
+    }
+}
+
+fn connect(sock: &Path) -> Result<(UnixStream, BufReader<UnixStream>), String> {
+    let s = UnixStream::connect(sock).map_err(|e| format!("connect: {e}"))?;
+    let _ = s.set_read_timeout(Some(Duration::from_secs(20)));
+    let _ = s.set_write_timeout(Some(Duration::from_secs(20)));
+    let r = BufReader::new(s.try_clone().map_err(|e| format!("clone: {e}"))?);
+    Ok((s, r))
+}
+
+/// One request on a new connection.
+fn send_once(sock: &Path, line: &[u8]) -> Reply {
+    let (mut s, mut r) = match connect(sock) {
+        Ok(x) => x,
+        Err(e) => return Reply { io_error: Some(e), ..Default::default() },
+    };
+    if let Err(e) = s.write_all(line).and_then(|_| s.write_all(b"\n")).and_then(|_| s.flush()) {
+        return Reply { io_error: Some(format!("write: {e}")), ..Default::default() };
+    }
+    read_reply(&mut r)
+}
+
+fn request_line(ty: &str, params: Option<&Value>, auth: Option<&str>) -> String {
+    let mut o = Map::new();
+    o.insert("id".into(), json!(7));
+    o.insert("type".into(), json!(ty));
+    if let Some(p) = params {
+        o.insert("params".into(), p.clone());
+    }
+    if let Some(a) = auth {
+        o.insert("auth".into(), json!(a));
+    }
+    Value::Object(o).to_string()
+}
+
+fn diff_keys(a: &BTreeMap<String, String>, b: &BTreeMap<String, String>) -> Vec<String> {
+    let mut out = BTreeSet::new();
+    for (k, v) in a {
+        if b.get(k) != Some(v) {
+            out.insert(k.clone());
+        }
+    }
+    for k in b.keys() {
+        if !a.contains_key(k) {
+            out.insert(k.clone());
+        }
+    }
+    out.into_iter().collect()
+}
+
+// =================================================================================================
+// Part C — X1: request type x params x credential x configuration
+// =================================================================================================
+
+/// Minimal valid params (the request has an effect / returns data with them on the fresh state).
+/// `$…` placeholders are replaced by values of the fresh endpoint.
+fn minimal_params(ty: &str) -> Vec<(&'static str, Value)> {
+    let d = |v: Value| vec![("min", v)];
+    match ty {
+        "restart" => vec![("min", json!({"mode":"warm"})), ("cold", json!({"mode":"COLD"}))],
+        "io.write" => d(json!({"address":"%QX0.0","value":"TRUE"})),
+        "io.force" => d(json!({"address":"%QX0.2","value":"TRUE"})),
+        "io.unforce" => d(json!({"address":"%QX0.1"})),
+        "set" => vec![("min", json!({"target":"global:g_set","value":"7"})), ("retain", json!({"target":"retain:r_new","value":"1"}))],
+        "var.force" => d(json!({"target":"global:g_force","value":"9"})),
+        "var.unforce" => d(json!({"target":"global:g_forced"})),
+        "eval" => d(json!({"expr":"g_set"})),
+        "debug.evaluate" => d(json!({"expression":"g_set + 1"})),
+        "debug.scopes" => d(json!({"frame_id":0})),
+        "debug.variables" => d(json!({"variables_reference":1})),
+        "debug.breakpoint_locations" => d(json!({"source":SOURCE_PATH,"line":1,"end_line":50})),
+        "breakpoints.set" => d(json!({"source":SOURCE_PATH,"lines":[11]})),
+        "breakpoints.clear" => d(json!({"source":SOURCE_PATH,"lines":[]})),
+        "breakpoints.clear_id" => d(json!({"file_id":FILE_ID})),
+        "hmi.write" => d(json!({"id":"Main.run","value":false})),
+        "hmi.alarm.ack" => d(json!({"id":"$ALARM_ID"})),
+        "hmi.values.get" => d(json!({"ids":["resource/RESOURCE/program/Main/field/speed"]})),
+        "hmi.trends.get" => d(json!({"duration_ms":60000,"buckets":24})),
+        "hmi.alarms.get" => d(json!({"limit":10})),
+        "hmi.scaffold.reset" => d(json!({"mode":"reset","style":"industrial"})),
+        "hmi.descriptor.update" => d(json!({"descriptor":{
+            "config":{"theme":{"style":"industrial","accent":"#22d3ee"},"layout":{},"write":{},"alarm":[]},
+            "pages":[{"id":"overview","title":"Overview","icon":"activity","order":0,"kind":"dashboard","duration_ms":null,"svg":null,"signals":[],
+                "sections":[{"title":"Drive","span":12,"widgets":[{"widget_type":"gauge","bind":"Main.speed","label":"Speed Updated","unit":"rpm","min":0,"max":100,"span":6,"on_color":null,"off_color":null,"zones":[]}]}],
+                "bindings":[]}]}})),
+        "events" | "events.tail" | "faults" => d(json!({"limit":5})),
+        "historian.query" | "historian.alerts" => d(json!({"limit":5})),
+        "bytecode.reload" => d(json!({"bytes":"AAAA"})),
+        "pair.claim" => vec![("min", json!({"code":"$PAIR_CODE","role":"engineer"})), ("norole", json!({"code":"$PAIR_CODE"}))],
+        "pair.revoke" => vec![("min", json!({"id":"$VICTIM_ID"})), ("all", json!({"id":"all"}))],
+        "config.set" => vec![
+            ("min", json!({"log.level":"debug"})),
+            ("auth_token", json!({"control.auth_token":"new-admin-token"})),
+            ("auth_null", json!({"control.auth_token":null})),
+            ("debug_on", json!({"control.debug_enabled":true})),
+            ("debug_off", json!({"control.debug_enabled":false})),
+            ("mode", json!({"control.mode":"debug"})),
+            ("mesh_token", json!({"mesh.auth_token":"mesh-secret"})),
+            ("web_auth", json!({"web.auth":"local"})),
+            ("watchdog", json!({"watchdog.enabled":true,"watchdog.timeout_ms":50})),
+            ("mixed", json!({"log.level":"trace","control.auth_token":"sneaky"})),
+        ],
+        _ => Vec::new(),
+    }
+}
+
+/// Request types for which the fresh endpoint MUST show an effect when an admin sends the
+/// minimal params (non-vacuity of the probes). (type, needs pairing store, needs production mode)
+const EXPECT_EFFECT: &[(&str, bool, bool)] = &[
+    ("pause", false, false), ("resume", false, true), ("step_in", false, false), ("step_over", false, false),
+    ("step_out", false, false), ("breakpoints.set", false, false), ("breakpoints.clear", false, false),
+    ("breakpoints.clear_all", false, false), ("breakpoints.clear_id", false, false), ("set", false, false),
+    ("var.force", false, false), ("var.unforce", false, false), ("io.write", false, false), ("io.force", false, false),
+    ("io.unforce", false, false), ("hmi.write", false, false), ("hmi.alarm.ack", false, false),
+    ("hmi.descriptor.update", false, false), ("hmi.scaffold.reset", false, false), ("config.set", false, false),
+    ("restart", false, false), ("shutdown", false, false), ("bytecode.reload", false, false),
+    ("pair.start", true, false), ("pair.claim", true, false), ("pair.revoke", true, false),
+];
+
+fn wrong_type_of(v: &Value) -> Value {
+    match v {
+        Value::String(_) => json!(5),
+        Value::Number(_) => json!("5"),
+        Value::Bool(_) => json!("yes"),
+        Value::Array(_) => json!({"0": 1}),
+        Value::Object(_) => json!([1]),
+        Value::Null => json!(0),
+    }
+}
+
+/// (variant name, params) — `None` = no `params` member at all.
+fn params_menu(ty_base: &str, thorough: bool, table: &Table) -> Vec<(String, Option<Value>)> {
+    let mut out: Vec<(String, Option<Value>)> = vec![("absent".into(), None), ("empty".into(), Some(json!({})))];
+    let mins = minimal_params(ty_base);
+    for (n, v) in &mins {
+        out.push((n.to_string(), Some(v.clone())));
+    }
+    // wrong JSON types
+    if let Some((_, Value::Object(o))) = mins.first() {
+        let all_wrong: Map<String, Value> = o.iter().map(|(k, v)| (k.clone(), wrong_type_of(v))).collect();
+        out.push(("wrongtypes".into(), Some(Value::Object(all_wrong))));
+        if thorough {
+            for k in o.keys() {
+                let mut del = o.clone();
+                del.remove(k);
+                out.push((format!("del:{k}"), Some(Value::Object(del))));
+                let mut flip = o.clone();
+                flip.insert(k.clone(), wrong_type_of(&o[k]));
+                out.push((format!("flip:{k}"), Some(Value::Object(flip))));
+                let mut nul = o.clone();
+                nul.insert(k.clone(), Value::Null);
+                out.push((format!("null:{k}"), Some(Value::Object(nul))));
+            }
+        }
+    }
+    out.push(("array".into(), Some(json!([1, "x"]))));
+    out.push(("string".into(), Some(json!("params"))));
+    if thorough {
+        out.push(("number".into(), Some(json!(7))));
+        out.push(("null".into(), Some(Value::Null)));
+        out.push(("bool".into(), Some(json!(true))));
+        if ty_base == "config.set" {
+            for k in &table.config_keys {
+                for (vn, v) in [("t", json!(true)), ("n", json!(5)), ("s", json!("x")), ("a", json!(["x"])), ("o", json!({"a":"b"})), ("z", Value::Null)] {
+                    let mut o = Map::new();
+                    o.insert(k.clone(), v);
+                    out.push((format!("key:{k}:{vn}"), Some(Value::Object(o))));
+                }
+            }
+        }
+    }
+    out
+}
+
+/// Unknown / garbled names derived from a known one.
+fn garbled(name: &str) -> Vec<String> {
+    let mut v = vec![
+        name.to_ascii_uppercase(),
+        {
+            let mut c = name.chars();
+            match c.next() {
+                Some(f) => f.to_ascii_uppercase().to_string() + c.as_str(),
+                None => String::new(),
+            }
+        },
+        name[..name.len().saturating_sub(1)].to_string(),
+        format!("{name}x"),
+        format!("{name} "),
+        format!(" {name}"),
+        format!("{name}\u{0}"),
+        format!("{name}\t"),
+        name.replace('.', "_"),
+        name.replace('.', ".."),
+    ];
+    v.sort();
+    v.dedup();
+    v.retain(|g| g != name);
+    v
+}
+
+const CRED_ORDER: [&str; 9] = ["none", "wrong", "admin", "pair:viewer", "pair:operator", "pair:engineer", "pair:admin", "revoked", "expired"];
+
+/// Role a credential maps to: Some(Some(r)) = role r; Some(None) = no valid credential (must be
+/// refused); None = the statement does not constrain it (no auth token configured: local trust).
+fn cred_role(cred: &str, cfg: Cfg) -> Option<Option<u8>> {
+    let pair = cred.strip_prefix("pair:").and_then(role_index);
+    if let Some(r) = pair {
+        if cfg.pairing {
+            return Some(Some(r));
+        }
+        return if cfg.token { Some(None) } else { None };
+    }
+    if cfg.token {
+        if cred == "admin" {
+            Some(Some(3))
+        } else {
+            Some(None)
+        }
+    } else {
+        None
+    }
+}
+
+#[derive(Clone, Debug)]
+pub struct Obs {
+    pub cred: String,
+    pub reply: Reply,
+    pub effects: Vec<String>,
+    pub panic: Option<String>,
+}
+
+impl Obs {
+    fn performed(&self) -> bool {
+        self.reply.ok == Some(true) || !self.effects.is_empty()
+    }
+    fn to_json(&self) -> Value {
+        json!({"cred": self.cred, "ok": self.reply.ok, "error": self.reply.error.clone().or(self.reply.io_error.clone()),
+               "has_result": self.reply.has_result, "effects": self.effects})
+    }
+}
+
+fn clip(s: &str, n: usize) -> String {
+    let mut o: String = s.chars().take(n).collect();
+    if s.chars().count() > n {
+        o.push('…');
+    }
+    o
+}
+
+fn type_label(ty: &str) -> String {
+    // printable, stable rendering of a (possibly garbled) request name for signatures
+    ty.chars()
+        .map(|c| match c {
+            ' ' => "␠".to_string(),
+            '\t' => "\\t".to_string(),
+            '\0' => "\\0".to_string(),
+            c if c.is_control() => format!("\\x{:02x}", c as u32),
+            c => c.to_string(),
+        })
+        .collect()
+}
+
+/// Executes one request with one credential on a fresh endpoint.
+fn exec_one(cfg: Cfg, base: &Path, ty: &str, params: Option<&Value>, cred: &str) -> Result<Option<Obs>, String> {
+    let mut env = build_env(cfg, base, false)?;
+    let auth: Option<String> = if cred == "none" {
+        None
+    } else {
+        match env.creds.get(cred) {
+            Some(t) => Some(t.clone()),
+            None => return Ok(None), // credential not constructible in this configuration
+        }
+    };
+    let before = env.probe(false);
+    let p = params.map(|p| env.subst(p));
+    let line = request_line(ty, p.as_ref(), auth.as_deref());
+    let _ = take_panic();
+    let reply = send_once(&env.sock, line.as_bytes());
+    let panic = take_panic();
+    let after = env.probe(true);
+    Ok(Some(Obs { cred: cred.to_string(), reply, effects: diff_keys(&before, &after), panic }))
+}
+
+fn required_from_case(case: &Value) -> (u8, bool) {
+    // (role, dynamic)
+    let r = &case["required"];
+    if let Some(x) = r["lit"].as_u64() {
+        (x as u8, false)
+    } else {
+        (r["dyn"].as_u64().unwrap_or(0) as u8, true)
+    }
+}
+
+/// All oracle clauses on one group (same configuration, type, params; every credential).
+fn judge_group(case: &Value, cfg: Cfg, obs: &[Obs]) -> Vec<(String, String)> {
+    let ty = case["type"].as_str().unwrap_or("");
+    let tl = type_label(ty);
+    let debug_class = case["debug_class"].as_bool().unwrap_or(false);
+    let (mut required, dynamic) = required_from_case(case);
+    if dynamic {
+        // the table entry is a function of the params: take the role the endpoint itself announces
+        for o in obs {
+            if let Some(e) = &o.reply.error {
+                if let Some(r) = e.strip_prefix("forbidden: requires role ").and_then(|r| role_index(r.trim())) {
+                    required = required.max(r);
+                }
+            }
+        }
+    }
+    let ctx = format!("[{}; params {}]", cfg.label(), clip(&case["params"].to_string(), 120));
+    let mut v: Vec<(String, String)> = Vec::new();
+    for o in obs {
+        let shown = format!("reply {}", clip(o.reply.raw.as_deref().unwrap_or("<none>"), 160));
+        // every line gets a reply, no panic
+        if o.reply.ok.is_none() {
+            let why = o.panic.clone().or(o.reply.io_error.clone()).unwrap_or_else(|| "reply is not a JSON object with a boolean `ok`".into());
+            v.push((format!("C18/no-reply/{tl}"), format!("request `{tl}` with credential {} got no well-formed reply ({why}) {ctx}", o.cred)));
+        } else if o.reply.ok == Some(false) && o.reply.error.is_none() {
+            v.push((format!("C18/no-error-text/{tl}"), format!("request `{tl}`: negative reply without `error` text; {shown} {ctx}")));
+        }
+        if let Some(p) = &o.panic {
+            v.push((format!("C18/panic/{tl}"), format!("request `{tl}` with credential {} made an endpoint thread panic: {} {ctx}", o.cred, clip(p, 160))));
+        }
+        let role = cred_role(&o.cred, cfg);
+        match role {
+            Some(None) => {
+                if !o.effects.is_empty() {
+                    v.push((format!("C18/unauth-effect/{}/{tl}", o.cred), format!("auth token configured, credential `{}` is not valid, yet request `{tl}` changed {:?}; {shown} {ctx}", o.cred, o.effects)));
+                }
+                if o.reply.ok == Some(true) || o.reply.has_result {
+                    v.push((format!("C18/unauth-data/{}/{tl}", o.cred), format!("auth token configured, credential `{}` is not valid, yet request `{tl}` was answered with data; {shown} {ctx}", o.cred)));
+                }
+            }
+            Some(Some(r)) => {
+                if o.performed() && r < required {
+                    v.push((format!("C18/role-table/{}/{tl}", role_name(r)), format!("request `{tl}` requires role {} by the permission table but was performed for a {} credential ({}): effects {:?}; {shown} {ctx}", role_name(required), role_name(r), o.cred, o.effects)));
+                }
+                if r == 0 && !o.effects.is_empty() {
+                    v.push((format!("C18/viewer-effect/{tl}"), format!("a viewer credential changed {:?} with request `{tl}`; {shown} {ctx}", o.effects)));
+                }
+            }
+            None => {}
+        }
+        if !cfg.debug && debug_class && o.performed() {
+            v.push((format!("C18/debug-gate/{tl}"), format!("debug is disabled but debug-class request `{tl}` was performed for credential {}: effects {:?}; {shown} {ctx}", o.cred, o.effects)));
+        }
+        if !o.effects.is_empty() && required == 0 {
+            v.push((format!("C18/mutating-at-viewer-level/{tl}"), format!("request `{tl}` changes {:?} (credential {}) but the permission table requires only viewer for it; {shown} {ctx}", o.effects, o.cred)));
+        }
+    }
+    // monotone in the role order
+    let ranked: Vec<(u8, &Obs)> = obs.iter().filter_map(|o| cred_role(&o.cred, cfg).flatten().map(|r| (r, o))).collect();
+    for (r1, o1) in &ranked {
+        for (r2, o2) in &ranked {
+            if r1 < r2 && o1.performed() && !o2.performed() {
+                v.push((format!("C18/monotone/{tl}"), format!("request `{tl}` is performed for {} ({}) but refused for the higher role {} ({}): {:?} vs {:?} {ctx}", role_name(*r1), o1.cred, role_name(*r2), o2.cred, o1.reply.error, o2.reply.error)));
+            }
+        }
+    }
+    v
+}
+
+fn scratch_base(case: &Value) -> PathBuf {
+    match case["dir"].as_str() {
+        Some(d) if Path::new(d).is_dir() => PathBuf::from(d),
+        _ => {
+            let shm = Path::new("/dev/shm");
+            let base = if shm.is_dir() { shm.to_path_buf() } else { std::env::temp_dir() };
+            let d = base.join(format!("tv-c18-replay-{}", std::process::id()));
+            let _ = std::fs::create_dir_all(&d);
+            d
+        }
+    }
+}
+
+/// X1 group: returns (violations, observations) or a machinery error.
+fn run_group(case: &Value) -> Result<(Vec<(String, String)>, Vec<Obs>), String> {
+    let cfg = Cfg::from_json(&case["cfg"]);
+    let base = scratch_base(case);
+    let ty = case["type"].as_str().ok_or("case without type")?;
+    let params = case.get("params").filter(|p| !(p.is_object() && p.get("$absent").is_some()));
+    let creds: Vec<String> = case["creds"]
+        .as_array()
+        .map(|a| a.iter().filter_map(|c| c.as_str().map(str::to_string)).collect())
+        .unwrap_or_else(|| CRED_ORDER.iter().map(|s| s.to_string()).collect());
+    let mut obs = Vec::new();
+    for c in &creds {
+        if let Some(o) = exec_one(cfg, &base, ty, params, c)? {
+            obs.push(o);
+        }
+    }
+    Ok((judge_group(case, cfg, &obs), obs))
+}
+
+// =================================================================================================
+// Part D — X2: explicit-state search over the pairing sub-protocol (state = replayed history)
+// =================================================================================================
+
+struct MTok {
+    token: String,
+    id: String,
+    role: u8,
+    enabled: bool,
+    expires_at: u64,
+}
+
+#[derive(Default)]
+struct PairModel {
+    toks: Vec<MTok>,
+    /// (code, expires_at)
+    pending: Option<(String, u64)>,
+}
+
+impl PairModel {
+    /// (token string sent, role the model assigns: None = not a valid credential, class label)
+    fn cred(&self, name: &str, now: u64) -> (String, Option<u8>, String) {
+        if name == "admin" {
+            return (ADMIN_TOKEN.to_string(), Some(3), "admin-token".into());
+        }
+        if name == "bogus" {
+            return ("no-such-token".into(), None, "never-issued".into());
+        }
+        if name == "code" {
+            return (self.pending.as_ref().map(|p| p.0.clone()).unwrap_or_else(|| "000000".into()), None, "pending-code".into());
+        }
+        let k: usize = name.trim_start_matches("tok").parse().unwrap_or(usize::MAX);
+        match self.toks.get(k) {
+            None => ("no-such-token".into(), None, "never-issued".into()),
+            Some(t) => {
+                if !t.enabled {
+                    (t.token.clone(), None, "revoked".into())
+                } else if t.expires_at < now {
+                    (t.token.clone(), None, "expired".into())
+                } else {
+                    (t.token.clone(), Some(t.role), format!("valid-{}", role_name(t.role)))
+                }
+            }
+        }
+    }
+}
+
+const LEVEL_PROBES: [&str; 4] = ["status", "restart", "io.write", "pair.list"];
+
+fn req_of(case: &Value, ty: &str) -> u8 {
+    case["req"][ty].as_u64().unwrap_or(3) as u8
+}
+
+/// Replays one history on a fresh endpoint, checks every step against the reference model and
+/// then the acceptance of every credential at four role levels.
+fn run_history(case: &Value) -> Result<Value, String> {
+    let cfg = Cfg { token: true, debug: true, pairing: true, production: false };
+    let base = scratch_base(case);
+    let env = build_env(cfg, &base, true)?;
+    let store = env.store.clone().ok_or("no store")?;
+    let mut model = PairModel::default();
+    let mut viol: Vec<(String, String)> = Vec::new();
+    let mut now = T0;
+    let hist = case["history"].as_array().cloned().unwrap_or_default();
+    let hist_s = clip(&Value::Array(hist.clone()).to_string(), 300);
+    let mut requests = 0u64;
+    let mut steps_refused = 0u64;
+    let mut unexpected_refusals = 0u64;
+    for ev in &hist {
+        now += 1;
+        env.clock.store(now, Ordering::SeqCst);
+        let kind = ev["e"].as_str().unwrap_or("");
+        if kind == "tick" {
+            now += if ev["what"].as_str() == Some("token") { 32 * 86400 } else { 400 };
+            env.clock.store(now, Ordering::SeqCst);
+            continue;
+        }
+        let cname = ev["cred"].as_str().unwrap_or("admin");
+        let (tok, role, class) = model.cred(cname, now);
+        match kind {
+            "start" => {
+                let allowed = role.map(|r| r >= req_of(case, "pair.start")).unwrap_or(false);
+                let rep = send_once(&env.sock, request_line("pair.start", None, Some(&tok)).as_bytes());
+                requests += 1;
+                let v: Value = rep.raw.as_deref().and_then(|r| serde_json::from_str(r).ok()).unwrap_or(Value::Null);
+                let code = v["result"]["code"].as_str().map(str::to_string);
+                if rep.ok == Some(true) && !allowed {
+                    viol.push((format!("C18/pairing/start-performed/{class}"), format!("pair.start was performed for a {class} credential (needs {}); history {hist_s}", role_name(req_of(case, "pair.start")))));
+                }
+                if let (Some(true), Some(code)) = (rep.ok, code) {
+                    let exp = v["result"]["expires_at"].as_u64().unwrap_or(now);
+                    model.pending = Some((code, exp));
+                } else {
+                    steps_refused += 1;
+                    if allowed {
+                        unexpected_refusals += 1;
+                    }
+                }
+            }
+            "claim" => {
+                let good = ev["code"].as_str() != Some("bad");
+                let code = match (&model.pending, good) {
+                    (Some((c, _)), true) => c.clone(),
+                    (Some((c, _)), false) => {
+                        let mut x: Vec<char> = c.chars().collect();
+                        if let Some(l) = x.last_mut() {
+                            *l = if *l == '9' { '0' } else { '9' };
+                        }
+                        x.into_iter().collect()
+                    }
+                    (None, _) => "123456".to_string(),
+                };
+                let requested = ev["role"].as_str().and_then(role_index);
+                let mut p = Map::new();
+                p.insert("code".into(), json!(code));
+                if let Some(r) = ev["role"].as_str() {
+                    p.insert("role".into(), json!(r));
+                }
+                let allowed = role.map(|r| r >= req_of(case, "pair.claim")).unwrap_or(false);
+                let why_not = if !allowed {
+                    Some(format!("insufficient-role:{class}"))
+                } else if model.pending.is_none() {
+                    Some("no-pending-code".to_string())
+                } else if model.pending.as_ref().map(|p| p.1 < now).unwrap_or(false) {
+                    Some("expired-code".to_string())
+                } else if !good {
+                    Some("wrong-code".to_string())
+                } else {
+                    None
+                };
+                let rep = send_once(&env.sock, request_line("pair.claim", Some(&Value::Object(p)), Some(&tok)).as_bytes());
+                requests += 1;
+                let v: Value = rep.raw.as_deref().and_then(|r| serde_json::from_str(r).ok()).unwrap_or(Value::Null);
+                let issued = v["result"]["token"].as_str().map(str::to_string);
+                match (rep.ok, issued) {
+                    (Some(true), Some(t)) => {
+                        if let Some(w) = &why_not {
+                            viol.push((format!("C18/pairing/token-issued/{w}"), format!("pair.claim issued a token although the model says it must not ({w}); history {hist_s}")));
+                        }
+                        let tail: String = t.chars().rev().take(4).collect::<String>().chars().rev().collect();
+                        let known: BTreeSet<String> = model.toks.iter().map(|m| m.id.clone()).collect();
+                        let entry = store.list().into_iter().find(|e| e.tail.ends_with(&tail) && !known.contains(&e.id));
+                        let (id, granted, exp) = match entry {
+                            Some(e) => (e.id, role_index(e.role.as_str()).unwrap_or(3), e.expires_at),
+                            None => {
+                                viol.push(("C18/pairing/issued-token-not-listed".into(), format!("pair.claim returned a token that the store does not list; history {hist_s}")));
+                                (format!("unlisted-{}", model.toks.len()), requested.unwrap_or(1), u64::MAX)
+                            }
+                        };
+                        if let Some(rq) = requested {
+                            if granted > rq {
+                                viol.push((format!("C18/pairing/role-escalation/requested-{}/granted-{}", role_name(rq), role_name(granted)), format!("pair.claim for role {} stored a token with role {}; history {hist_s}", role_name(rq), role_name(granted))));
+                            }
+                        }
+                        model.toks.push(MTok { token: t, id, role: granted, enabled: true, expires_at: exp });
+                        model.pending = None;
+                    }
+                    _ => {
+                        steps_refused += 1;
+                        if why_not.is_none() {
+                            unexpected_refusals += 1;
+                        }
+                    }
+                }
+            }
+            "revoke" => {
+                let target = ev["target"].as_str().unwrap_or("all");
+                let id = if target == "all" {
+                    "all".to_string()
+                } else {
+                    let k: usize = target.trim_start_matches("tok").parse().unwrap_or(usize::MAX);
+                    model.toks.get(k).map(|t| t.id.clone()).unwrap_or_else(|| "pair-0".into())
+                };
+                let allowed = role.map(|r| r >= req_of(case, "pair.revoke")).unwrap_or(false);
+                let rep = send_once(&env.sock, request_line("pair.revoke", Some(&json!({"id": id})), Some(&tok)).as_bytes());
+                requests += 1;
+                if rep.ok == Some(true) {
+                    if !allowed {
+                        viol.push((format!("C18/pairing/revoke-performed/{class}"), format!("pair.revoke was performed for a {class} credential; history {hist_s}")));
+                    }
+                    for t in model.toks.iter_mut() {
+                        if id == "all" || t.id == id {
+                            t.enabled = false;
+                        }
+                    }
+                } else {
+                    steps_refused += 1;
+                }
+            }
+            other => return Err(format!("unknown event {other}")),
+        }
+    }
+    // acceptance of every credential at the four levels
+    now += 1;
+    env.clock.store(now, Ordering::SeqCst);
+    let mut names: Vec<String> = vec!["admin".into(), "bogus".into()];
+    if model.pending.is_some() {
+        names.push("code".into());
+    }
+    for k in 0..model.toks.len() {
+        names.push(format!("tok{k}"));
+    }
+    let mut matrix = String::new();
+    let mut accepted_n = 0u64;
+    let mut refused_n = 0u64;
+    for n in &names {
+        let (tok, role, class) = model.cred(n, now);
+        for ty in LEVEL_PROBES {
+            let params = match ty {
+                "restart" => Some(json!({"mode":"warm"})),
+                "io.write" => Some(json!({"address":"%QX0.0","value":"TRUE"})),
+                _ => None,
+            };
+            let rep = send_once(&env.sock, request_line(ty, params.as_ref(), Some(&tok)).as_bytes());
+            requests += 1;
+            let effect = match ty {
+                "restart" => env.state.pending_restart.lock().map(|mut g| g.take().is_some()).unwrap_or(false),
+                "io.write" => !env.debug.drain_io_writes().is_empty(),
+                _ => false,
+            };
+            let accepted = rep.ok == Some(true) || rep.has_result || effect;
+            let expected = role.map(|r| r >= req_of(case, ty)).unwrap_or(false);
+            matrix.push(if accepted { '1' } else { '0' });
+            if accepted {
+                accepted_n += 1;
+            } else {
+                refused_n += 1;
+            }
+            if rep.ok.is_none() {
+                viol.push((format!("C18/pairing/no-reply/{ty}"), format!("no well-formed reply to `{ty}` ({:?}); history {hist_s}", rep.io_error)));
+            } else if accepted && !expected {
+                viol.push((format!("C18/pairing/accepted/{class}/{ty}"), format!("after history {hist_s} a {class} credential was accepted for `{ty}` (requires {}); reply {}", role_name(req_of(case, ty)), clip(rep.raw.as_deref().unwrap_or(""), 120))));
+            } else if !accepted && expected {
+                viol.push((format!("C18/pairing/refused/{class}/{ty}"), format!("after history {hist_s} a {class} credential was refused for `{ty}` (requires {}): {:?}", role_name(req_of(case, ty)), rep.error)));
+            }
+        }
+        matrix.push('|');
+    }
+    let toks_abs: Vec<String> = model.toks.iter().map(|t| format!("{}{}{}", t.role, if t.enabled { 'e' } else { 'r' }, if t.expires_at < now { 'x' } else { 'v' })).collect();
+    let pend_abs = match &model.pending {
+        None => "-",
+        Some((_, e)) if *e < now => "x",
+        Some(_) => "p",
+    };
+    let impl_list: Vec<String> = store.list().iter().map(|e| format!("{}{}", e.role.as_str(), if e.enabled { 'e' } else { 'r' })).collect();
+    let key = format!("{}/{}/{}/{}", toks_abs.join(","), pend_abs, impl_list.join(","), matrix);
+    Ok(json!({
+        "key": key, "n_tokens": model.toks.len(), "pending": model.pending.is_some(),
+        "violations": viol.iter().map(|(s, w)| json!([s, w])).collect::<Vec<_>>(),
+        "requests": requests, "accepted": accepted_n, "refused": refused_n,
+        "steps_refused": steps_refused, "unexpected_refusals": unexpected_refusals,
+    }))
+}
+
+/// Events enabled after a history that issued `n_tokens` tokens.
+fn pairing_events(n_tokens: usize, thorough: bool) -> Vec<Value> {
+    let mut creds = vec!["admin".to_string()];
+    for k in 0..n_tokens.min(if thorough { 2 } else { 1 }) {
+        creds.push(format!("tok{k}"));
+    }
+    let mut ev = Vec::new();
+    for c in &creds {
+        ev.push(json!({"e":"start","cred":c}));
+    }
+    for r in [None, Some("viewer"), Some("operator"), Some("engineer"), Some("admin")] {
+        ev.push(json!({"e":"claim","code":"good","role":r,"cred":"admin"}));
+    }
+    ev.push(json!({"e":"claim","code":"bad","role":null,"cred":"admin"}));
+    for c in creds.iter().skip(1) {
+        ev.push(json!({"e":"claim","code":"good","role":"engineer","cred":c}));
+    }
+    if n_tokens > 0 {
+        ev.push(json!({"e":"revoke","target":"tok0","cred":"admin"}));
+        ev.push(json!({"e":"revoke","target":"tok0","cred":"tok0"}));
+        if n_tokens > 1 {
+            ev.push(json!({"e":"revoke","target":"tok1","cred":"admin"}));
+            ev.push(json!({"e":"revoke","target":"tok1","cred":"tok0"}));
+        }
+    }
+    ev.push(json!({"e":"revoke","target":"all","cred":"admin"}));
+    ev.push(json!({"e":"tick","what":"code"}));
+    ev.push(json!({"e":"tick","what":"token"}));
+    ev
+}
+
+// =================================================================================================
+// Part E — malformed input on a long-lived connection of one real server
+// =================================================================================================
+
+/// (class label used in signatures, bytes of the line, must the reply be an error?)
+fn malformed_lines(family: &str) -> Vec<(String, Vec<u8>, bool)> {
+    let mut out: Vec<(String, Vec<u8>, bool)> = Vec::new();
+    let s = |l: &str, t: &str, must: bool| (l.to_string(), t.as_bytes().to_vec(), must);
+    match family {
+        "trunc:status" | "trunc:io.write" | "trunc:config.set" => {
+            let line = match family {
+                "trunc:status" => request_line("status", None, Some(ADMIN_TOKEN)),
+                "trunc:io.write" => request_line("io.write", Some(&json!({"address":"%QX0.0","value":"TRUE"})), Some(ADMIN_TOKEN)),
+                _ => request_line("config.set", Some(&json!({"log.level":"debug","mesh.publish":["a","b"],"mesh.subscribe":{"t":"x"}})), Some(ADMIN_TOKEN)),
+            };
+            for n in 0..line.len() {
+                out.push(("truncation".into(), line.as_bytes()[..n].to_vec(), true));
+            }
+        }
+        "garbage" => {
+            for (l, t) in [
+                ("lone-open-brace", "{"), ("lone-close-brace", "}"), ("empty-array", "[]"), ("json-null", "null"), ("json-number", "1"),
+                ("json-string", "\"status\""), ("empty-object", "{}"), ("spaces", "   "), ("text", "status"), ("unquoted-keys", "{id:1,type:status}"),
+                ("single-quotes", "{'id':1,'type':'status'}"), ("trailing-comma", "{\"id\":1,\"type\":\"status\",}"),
+                ("trailing-garbage", "{\"id\":1,\"type\":\"status\"} x"), ("two-objects", "{\"id\":1,\"type\":\"status\"}{\"id\":2,\"type\":\"status\"}"),
+                ("missing-id", "{\"type\":\"status\"}"), ("missing-type", "{\"id\":1}"), ("id-negative", "{\"id\":-1,\"type\":\"status\"}"),
+                ("id-float", "{\"id\":1.5,\"type\":\"status\"}"), ("id-string", "{\"id\":\"1\",\"type\":\"status\"}"), ("id-null", "{\"id\":null,\"type\":\"status\"}"),
+                ("id-overflow", "{\"id\":18446744073709551616,\"type\":\"status\"}"), ("id-huge-exponent", "{\"id\":1e999,\"type\":\"status\"}"),
+                ("id-array", "{\"id\":[1],\"type\":\"status\"}"), ("type-number", "{\"id\":1,\"type\":5}"), ("type-null", "{\"id\":1,\"type\":null}"),
+                ("type-array", "{\"id\":1,\"type\":[\"status\"]}"), ("type-object", "{\"id\":1,\"type\":{\"a\":1}}"), ("auth-number", "{\"id\":1,\"type\":\"status\",\"auth\":5}"),
+                ("auth-array", "{\"id\":1,\"type\":\"status\",\"auth\":[\"x\"]}"), ("auth-object", "{\"id\":1,\"type\":\"status\",\"auth\":{}}"),
+                ("duplicate-id", "{\"id\":1,\"id\":2,\"type\":\"status\"}"), ("duplicate-type", "{\"id\":1,\"type\":\"status\",\"type\":\"shutdown\"}"),
+                ("bad-escape", "{\"id\":1,\"type\":\"st\\qatus\"}"), ("bad-unicode-escape", "{\"id\":1,\"type\":\"\\ud800\"}"), ("nul-char", "{\"id\":1,\"type\":\"status\u{0}\"}"),
+                ("raw-nul-bytes", "\u{0}\u{0}\u{0}"), ("control-chars", "\u{1}\u{2}\u{1b}[31m"), ("bom", "\u{feff}{\"id\":1,\"type\":\"status\"}"),
+                ("carriage-return-inside", "{\"id\":1,\r\"type\":\"status\""), ("http-request", "GET / HTTP/1.1"), ("array-of-requests", "[{\"id\":1,\"type\":\"status\"}]"),
+            ] {
+                out.push(s(l, t, true));
+            }
+            out.push(("invalid-utf8".into(), vec![0xff, 0xfe, 0xfd], true));
+            out.push(("invalid-utf8".into(), b"{\"id\":1,\"type\":\"st\xc3\"}".to_vec(), true));
+            out.push(("invalid-utf8".into(), "{\"id\":1,\"type\":\"stä".as_bytes()[..19].to_vec(), true));
+            out.push(("invalid-utf8".into(), vec![b'"', 0xc0, 0xaf, b'"'], true));
+        }
+        "huge" => {
+            out.push(("huge-text-4MiB".into(), vec![b'A'; 4 << 20], true));
+            out.push(("deep-arrays-1MiB".into(), vec![b'['; 1 << 20], true));
+            out.push(("deep-objects".into(), "{\"a\":".repeat(100_000).into_bytes(), true));
+            let mut deep = b"{\"id\":1,\"type\":\"status\",\"params\":".to_vec();
+            deep.extend(std::iter::repeat(b'[').take(200_000));
+            out.push(("deep-params".into(), deep, true));
+            let mut balanced = b"{\"id\":1,\"type\":\"io.write\",\"auth\":\"adm-S3cret-token\",\"params\":".to_vec();
+            balanced.extend(std::iter::repeat(b'[').take(5_000));
+            balanced.extend(std::iter::repeat(b']').take(5_000));
+            balanced.push(b'}');
+            out.push(("deep-balanced-params".into(), balanced, true));
+            out.push(("huge-type-2MiB".into(), format!("{{\"id\":1,\"type\":\"{}\"}}", "s".repeat(2 << 20)).into_bytes(), true));
+            out.push(("huge-auth-2MiB".into(), format!("{{\"id\":1,\"type\":\"status\",\"auth\":\"{}\"}}", "a".repeat(2 << 20)).into_bytes(), true));
+            out.push(("huge-number".into(), format!("{{\"id\":{},\"type\":\"status\"}}", "9".repeat(100_000)).into_bytes(), true));
+        }
+        _ => {}
+    }
+    out
+}
+
+const SOCK_FAMILIES: [&str; 5] = ["trunc:status", "trunc:io.write", "trunc:config.set", "garbage", "huge"];
+
+fn run_sock(case: &Value) -> Result<Value, String> {
+    let cfg = Cfg { token: true, debug: true, pairing: true, production: false };
+    let base = scratch_base(case);
+    let family = case["family"].as_str().unwrap_or("");
+    let only: Option<u64> = case["only"].as_u64();
+    let mut env = build_env(cfg, &base, false)?;
+    let before = env.probe(false);
+    let lines = malformed_lines(family);
+    if lines.is_empty() {
+        return Err(format!("unknown malformed family {family}"));
+    }
+    let mut viol: Vec<(String, String, u64)> = Vec::new();
+    let mut conn: Option<(UnixStream, BufReader<UnixStream>)> = None;
+    let mut sent = 0u64;
+    let mut error_replies = 0u64;
+    let mut dropped = 0u64;
+    let valid = request_line("status", None, Some(ADMIN_TOKEN));
+    let ask = |conn: &mut Option<(UnixStream, BufReader<UnixStream>)>, bytes: &[u8]| -> Reply {
+        if conn.is_none() {
+            match connect(&env.sock) {
+                Ok(c) => *conn = Some(c),
+                Err(e) => return Reply { io_error: Some(e), ..Default::default() },
+            }
+        }
+        let (s, r) = conn.as_mut().unwrap();
+        if let Err(e) = s.write_all(bytes).and_then(|_| s.write_all(b"\n")).and_then(|_| s.flush()) {
+            *conn = None;
+            return Reply { io_error: Some(format!("write failed: {e}")), ..Default::default() };
+        }
+        let rep = read_reply(r);
+        if rep.raw.is_none() {
+            *conn = None;
+        }
+        rep
+    };
+    for (idx, (label, bytes, must_error)) in lines.iter().enumerate() {
+        if let Some(o) = only {
+            if o != idx as u64 {
+                continue;
+            }
+        }
+        let shown = clip(&String::from_utf8_lossy(bytes), 80);
+        let _ = take_panic();
+        let rep = ask(&mut conn, bytes);
+        sent += 1;
+        let panic = take_panic();
+        if let Some(p) = panic {
+            viol.push((format!("C18/malformed/panic/{label}"), format!("line {shown:?} made an endpoint thread panic: {}", clip(&p, 160)), idx as u64));
+        }
+        match rep.ok {
+            None => {
+                dropped += 1;
+                viol.push((
+                    format!("C18/malformed/no-error-reply/{label}"),
+                    format!("line {shown:?} ({} bytes) got no error reply: {}", bytes.len(), rep.io_error.clone().unwrap_or_else(|| format!("reply {:?} is not a JSON object with boolean ok", rep.raw.as_deref().map(|r| clip(r, 80))))),
+                    idx as u64,
+                ));
+            }
+            Some(true) if *must_error => {
+                viol.push((format!("C18/malformed/accepted/{label}"), format!("malformed line {shown:?} was answered ok:true: {}", clip(rep.raw.as_deref().unwrap_or(""), 120)), idx as u64));
+            }
+            Some(false) => {
+                error_replies += 1;
+                if rep.error.is_none() {
+                    viol.push((format!("C18/malformed/no-error-text/{label}"), format!("line {shown:?}: negative reply without error text"), idx as u64));
+                }
+            }
+            _ => {}
+        }
+        // the same connection must still serve a valid request
+        if conn.is_some() {
+            let rep = ask(&mut conn, valid.as_bytes());
+            if rep.ok != Some(true) {
+                viol.push((format!("C18/malformed/connection-dead/{label}"), format!("after line {shown:?} the same connection no longer answers a valid `status` request: {:?}", rep.error.or(rep.io_error)), idx as u64));
+                conn = None;
+            }
+        }
+    }
+    drop(conn);
+    // server still up for new connections
+    let rep = send_once(&env.sock, valid.as_bytes());
+    if rep.ok != Some(true) {
+        viol.push((format!("C18/malformed/server-dead/{family}"), format!("after the `{family}` lines a new connection gets no ok reply to `status`: {:?}", rep.error.or(rep.io_error)), 0));
+    }
+    let after = env.probe(true);
+    let eff = diff_keys(&before, &after);
+    if !eff.is_empty() {
+        viol.push((format!("C18/malformed/effect/{family}"), format!("malformed lines of family `{family}` changed {eff:?}"), 0));
+    }
+    Ok(json!({
+        "violations": viol.iter().map(|(s, w, i)| json!([s, w, i])).collect::<Vec<_>>(),
+        "sent": sent, "error_replies": error_replies, "dropped": dropped,
+    }))
+}
+
+// =================================================================================================
+// Part F — worker, replay, driver
+// =================================================================================================
+
+const RECYCLE_AFTER_SERVERS: usize = 1500;
+
+fn exec_case(case: &Value) -> Value {
+    let r: Result<Value, String> = match case["kind"].as_str() {
+        Some("x1") => run_group(case).map(|(v, obs)| {
+            json!({
+                "violations": v.iter().map(|(s, w)| json!([s, w])).collect::<Vec<_>>(),
+                "obs": obs.iter().map(Obs::to_json).collect::<Vec<_>>(),
+            })
+        }),
+        Some("x2") => run_history(case),
+        Some("sock") => run_sock(case),
+        Some("null") => {
+            // calibration: no request at all — the probes must not differ
+            let cfg = Cfg::from_json(&case["cfg"]);
+            build_env(cfg, &scratch_base(case), false).map(|mut env| {
+                let a = env.probe(false);
+                let b = env.probe(true);
+                json!({"diff": diff_keys(&a, &b), "creds": env.creds.keys().cloned().collect::<Vec<_>>(), "alarm": env.alarm_id.is_some(), "ttl": env.token_ttl})
+            })
+        }
+        other => Err(format!("unknown case kind {other:?}")),
+    };
+    match r {
+        Ok(v) => v,
+        Err(e) => json!({"machinery": e}),
+    }
+}
+
+pub fn worker_case(case: &Value) -> Value {
+    static ONCE: std::sync::Once = std::sync::Once::new();
+    ONCE.call_once(install_panic_recorder);
+    let v = exec_case(case);
+    if SERVERS_STARTED.load(Ordering::Relaxed) >= RECYCLE_AFTER_SERVERS {
+        // every ControlServer leaves an accept thread behind: start over in a new process
+        iso::reply_and_exit(v);
+    }
+    v
+}
+
+pub fn workers() -> Vec<(&'static str, iso::WorkerFn)> {
+    vec![("c18_case", worker_case as iso::WorkerFn)]
+}
+
+pub fn check_case(case: &Value) -> Vec<Violation> {
+    install_panic_recorder();
+    let v = exec_case(case);
+    let mut out = Vec::new();
+    if let Some(m) = v["machinery"].as_str() {
+        eprintln!("C18 replay: machinery problem: {m}");
+        return out;
+    }
+    for x in v["violations"].as_array().cloned().unwrap_or_default() {
+        out.push(Violation {
+            signature: x[0].as_str().unwrap_or("C18/?").to_string(),
+            what: x[1].as_str().unwrap_or("").to_string(),
+            case: case.clone(),
+        });
+    }
+    out.sort_by(|a, b| a.signature.cmp(&b.signature));
+    out.dedup_by(|a, b| a.signature == b.signature);
+    if case["dir"].as_str().map(|d| !Path::new(d).is_dir()).unwrap_or(true) {
+        let _ = std::fs::remove_dir_all(scratch_base(case));
+    }
+    out
+}
+
+fn reply_class(o: &Value) -> &'static str {
+    if o["ok"].as_bool() == Some(true) {
+        return "ok";
+    }
+    match o["error"].as_str() {
+        Some("unauthorized") => "unauthorized",
+        Some(e) if e.starts_with("forbidden") => "forbidden",
+        Some("debug disabled") => "debug disabled",
+        Some("unsupported request") => "unsupported request",
+        Some(_) => "handler error",
+        None => "no reply",
+    }
+}
+
+/// Everything before the last `/segment` (the request name) of an X1 signature.
+fn sig_prefix(sig: &str) -> &str {
+    sig.rsplit_once('/').map(|(p, _)| p).unwrap_or(sig)
+}
+
+pub fn run(ctx: &Ctx) -> EngineResult {
+    quiet_panics();
+    let mut rep = Report::new("exploration");
+    let thorough = ctx.tier == Tier::Thorough;
+    let deadline = Instant::now() + Duration::from_secs(ctx.tier.pick(38, 840));
+    let table = scan_sources(&ctx.repo_dir).map_err(Machinery)?;
+    let names = table.all_names();
+    let missing_in_table: Vec<String> = table.dispatch.keys().filter(|k| !table.roles.contains_key(*k)).cloned().collect();
+    let undispatched: Vec<String> = table.roles.keys().filter(|k| !table.dispatch.contains_key(*k)).cloned().collect();
+    rep.set("request_names_from_source", names.len() as u64);
+    rep.set("dispatched_names", table.dispatch.len() as u64);
+    rep.set("permission_table_entries", table.roles.len() as u64);
+    rep.set("permission_table_default_role", role_name(table.default_role));
+    rep.set("dispatched_but_not_in_permission_table", json!(missing_in_table));
+    rep.set("in_permission_table_but_not_dispatched", json!(undispatched));
+    let debug_class: Vec<String> = names.iter().filter(|n| table.debug_class(n)).cloned().collect();
+    rep.set("debug_class_names", json!(debug_class));
+    let gate_diff: Vec<String> = debug_class.iter().filter(|n| !table.debug_gate.contains(*n)).cloned().collect();
+    rep.set("debug_class_names_missing_in_is_debug_request", json!(gate_diff));
+
+    // scratch: tmpfs if possible (the pairing store fsyncs on every change)
+    let work = ctx.work_dir();
+    let shm = PathBuf::from(format!("/dev/shm/tv-c18-{}", std::process::id()));
+    let fast = if std::fs::create_dir_all(&shm).is_ok() { shm.clone() } else { work.join("x1") };
+    let _ = std::fs::create_dir_all(&fast);
+    let sock_dir = work.join("sock");
+    std::fs::create_dir_all(&sock_dir).map_err(|e| Machinery(format!("mkdir {sock_dir:?}: {e}")))?;
+    struct Cleanup(PathBuf);
+    impl Drop for Cleanup {
+        fn drop(&mut self) {
+            let _ = std::fs::remove_dir_all(&self.0);
+        }
+    }
+    let _cleanup = Cleanup(shm.clone());
+    let fast_s = fast.to_string_lossy().to_string();
+
+    let pool = iso::PoolCfg {
+        worker: "c18_case",
+        procs: ctx.threads,
+        rlimit_as: 0,
+        per_case: Duration::from_secs(120),
+        deadline: Some(deadline),
+        env: vec![],
+        stack: 8 << 20,
+    };
+    let mut exhaustive = true;
+
+    // ---- configurations -------------------------------------------------------------------------
+    let mut cfgs_debugmode = Vec::new();
+    let mut cfgs_production = Vec::new();
+    for token in [true, false] {
+        for debug in [true, false] {
+            for pairing in [true, false] {
+                cfgs_debugmode.push(Cfg { token, debug, pairing, production: false });
+                cfgs_production.push(Cfg { token, debug, pairing, production: true });
+            }
+        }
+    }
+
+    // ---- calibration: probes are stable when nothing is requested ---------------------------------
+    let all_cfgs: Vec<Cfg> = cfgs_debugmode.iter().chain(cfgs_production.iter()).copied().collect();
+    let cal: Vec<Value> = all_cfgs.iter().map(|c| json!({"kind":"null","dir":fast_s,"cfg":c.to_json()})).collect();
+    let cal_out = iso::run_pool(&iso::PoolCfg { deadline: None, ..clone_pool(&pool) }, &cal).map_err(Machinery)?;
+    let mut admin_pairing_available = true;
+    for (c, o) in all_cfgs.iter().zip(cal_out) {
+        match o {
+            Some(iso::Outcome::Ok(v)) => {
+                if let Some(m) = v["machinery"].as_str() {
+                    return machinery(format!("cannot build the endpoint [{}]: {m}", c.label()));
+                }
+                let d = v["diff"].as_array().cloned().unwrap_or_default();
+                if !d.is_empty() {
+                    return machinery(format!("probes are unstable without any request [{}]: {d:?}", c.label()));
+                }
+                if c.pairing {
+                    let creds: Vec<&str> = v["creds"].as_array().map(|a| a.iter().filter_map(Value::as_str).collect()).unwrap_or_default();
+                    for need in ["pair:viewer", "pair:operator", "pair:engineer", "revoked", "expired"] {
+                        if !creds.contains(&need) {
+                            return machinery(format!("credential {need} could not be constructed"));
+                        }
+                    }
+                    if !creds.contains(&"pair:admin") {
+                        admin_pairing_available = false;
+                    }
+                    if v["alarm"].as_bool() != Some(true) {
+                        return machinery("no HMI alarm could be raised on the fresh endpoint (hmi.alarm.ack would be vacuous)");
+                    }
+                }
+            }
+            other => return machinery(format!("calibration case failed [{}]: {other:?}", c.label())),
+        }
+    }
+    if !admin_pairing_available {
+        rep.assume("an admin-role pairing token could not be loaded from a hand-written pairing file; that credential is not enumerated");
+    }
+
+    // ---- X2: pairing sub-protocol -------------------------------------------------------------------
+    let req: Map<String, Value> = ["pair.start", "pair.claim", "pair.revoke", "pair.list", "status", "restart", "io.write"]
+        .iter()
+        .map(|t| {
+            let r = match table.required(t).0 {
+                RoleSpec::Lit(r) | RoleSpec::Dyn(r) => r,
+            };
+            (t.to_string(), json!(r))
+        })
+        .collect();
+    let nodl_pool = iso::PoolCfg { deadline: None, ..clone_pool(&pool) };
+    let max_depth = ctx.tier.pick(4usize, 6usize);
+    let mk = |h: &Vec<Value>| json!({"kind":"x2","dir":fast_s,"history":h,"req":req});
+    let mut seen: BTreeSet<String> = BTreeSet::new();
+    let mut states = 0u64;
+    let mut transitions = 0u64;
+    let mut x2_requests = 0u64;
+    let mut x2_accepted = 0u64;
+    let mut x2_refused = 0u64;
+    let mut x2_steps_refused = 0u64;
+    let mut x2_unexpected = 0u64;
+    let mut depth_completed = 0usize;
+    let mut frontier: Vec<(Vec<Value>, usize)>;
+    let mut frontier_sizes = Vec::new();
+    let mut sample_hist: Vec<Value> = Vec::new();
+    let mut level: Vec<Vec<Value>> = vec![Vec::new()];
+    let mut x2_capped = false;
+    for depth in 0..=max_depth {
+        let lc: Vec<Value> = level.iter().map(&mk).collect();
+        let outs = iso::run_pool(&nodl_pool, &lc).map_err(Machinery)?;
+        let mut next_frontier = Vec::new();
+        let mut complete = true;
+        for ((h, case), o) in level.iter().zip(lc.iter()).zip(outs) {
+            match o {
+                None => complete = false,
+                Some(iso::Outcome::Ok(v)) => {
+                    if let Some(m) = v["machinery"].as_str() {
+                        return machinery(format!("X2 history failed to build: {m}"));
+                    }
+                    if depth > 0 {
+                        transitions += 1;
+                    }
+                    x2_requests += v["requests"].as_u64().unwrap_or(0);
+                    x2_accepted += v["accepted"].as_u64().unwrap_or(0);
+                    x2_refused += v["refused"].as_u64().unwrap_or(0);
+                    x2_steps_refused += v["steps_refused"].as_u64().unwrap_or(0);
+                    x2_unexpected += v["unexpected_refusals"].as_u64().unwrap_or(0);
+                    for x in v["violations"].as_array().cloned().unwrap_or_default() {
+                        rep.violation(Violation { signature: x[0].as_str().unwrap_or("C18/pairing/?").to_string(), what: x[1].as_str().unwrap_or("").to_string(), case: case.clone() });
+                    }
+                    let key = v["key"].as_str().unwrap_or("").to_string();
+                    if seen.insert(key) {
+                        states += 1;
+                        if depth >= 2 && sample_hist.len() < 2 {
+                            sample_hist.push(json!({"family":"x2","history":h,"state":v["key"]}));
+                        }
+                        next_frontier.push((h.clone(), v["n_tokens"].as_u64().unwrap_or(0) as usize));
+                    }
+                }
+                Some(iso::Outcome::Panic(m)) => return machinery(format!("engine worker panicked in X2: {m}")),
+                Some(iso::Outcome::Died(m)) => rep.violation(Violation { signature: "C18/pairing/process-died".into(), what: format!("endpoint process died during a pairing history: {}", clip(&m, 200)), case: case.clone() }),
+                Some(iso::Outcome::Timeout) => rep.violation(Violation { signature: "C18/pairing/hang".into(), what: "pairing history did not finish within 120 s".into(), case: case.clone() }),
+            }
+        }
+        frontier_sizes.push(next_frontier.len());
+        if !complete {
+            x2_capped = true;
+            break;
+        }
+        depth_completed = depth;
+        frontier = next_frontier;
+        if depth == max_depth || frontier.is_empty() {
+            break;
+        }
+        level = Vec::new();
+        for (h, n) in &frontier {
+            for ev in pairing_events(*n, thorough) {
+                let mut nh = h.clone();
+                nh.push(ev);
+                level.push(nh);
+            }
+        }
+    }
+    eprintln!("[C18] X2 done at {:.1}s", ctx.elapsed());
+    if x2_capped {
+        exhaustive = false;
+        rep.cap(format!("X2 pairing search: wall cap reached at depth {}", depth_completed + 1));
+    } else if states < 10 || x2_accepted == 0 || x2_refused == 0 {
+        return machinery(format!("pairing search vacuous: {states} states, {x2_accepted} accepted / {x2_refused} refused probes"));
+    }
+    for s in sample_hist {
+        rep.sample(s);
+    }
+    rep.set("pairing_states", states);
+    rep.set("pairing_transitions", transitions);
+    rep.set("pairing_depth_completed", depth_completed as u64);
+    rep.set("pairing_traces_validated_against_impl", transitions + 1);
+    rep.set("pairing_frontier_sizes", json!(frontier_sizes));
+    rep.set("pairing_requests", x2_requests);
+    rep.set("pairing_level_probes_accepted", x2_accepted);
+    rep.set("pairing_level_probes_refused", x2_refused);
+    rep.set("pairing_protocol_steps_refused", x2_steps_refused);
+    rep.set("pairing_steps_refused_although_model_allows", x2_unexpected);
+
+    // ---- malformed lines on a real long-lived connection ---------------------------------------------
+    let sock_s = sock_dir.to_string_lossy().to_string();
+    let sc: Vec<Value> = SOCK_FAMILIES.iter().map(|f| json!({"kind":"sock","dir":sock_s,"family":f})).collect();
+    let souts = iso::run_pool(&iso::PoolCfg { deadline: None, ..clone_pool(&pool) }, &sc).map_err(Machinery)?;
+    let mut sent = 0u64;
+    let mut err_replies = 0u64;
+    let mut dropped = 0u64;
+    for (case, o) in sc.iter().zip(souts) {
+        let fam = case["family"].as_str().unwrap_or("");
+        match o {
+            Some(iso::Outcome::Ok(v)) => {
+                if let Some(m) = v["machinery"].as_str() {
+                    return machinery(format!("malformed family {fam} failed to build: {m}"));
+                }
+                sent += v["sent"].as_u64().unwrap_or(0);
+                err_replies += v["error_replies"].as_u64().unwrap_or(0);
+                dropped += v["dropped"].as_u64().unwrap_or(0);
+                for x in v["violations"].as_array().cloned().unwrap_or_default() {
+                    let mut c = case.clone();
+                    c["only"] = x[2].clone();
+                    c["dir"] = json!("");
+                    rep.violation(Violation { signature: x[0].as_str().unwrap_or("C18/malformed/?").to_string(), what: x[1].as_str().unwrap_or("").to_string(), case: c });
+                }
+            }
+            Some(iso::Outcome::Died(m)) => rep.violation(Violation { signature: format!("C18/malformed/process-died/{fam}"), what: format!("the process hosting the endpoint died on malformed family {fam}: {}", clip(&m, 200)), case: case.clone() }),
+            Some(iso::Outcome::Timeout) => rep.violation(Violation { signature: format!("C18/malformed/hang/{fam}"), what: format!("malformed family {fam} did not finish within 120 s"), case: case.clone() }),
+            other => return machinery(format!("malformed family {fam}: {other:?}")),
+        }
+    }
+    if err_replies < 50 {
+        return machinery(format!("malformed family vacuous: only {err_replies} error replies"));
+    }
+    eprintln!("[C18] malformed lines done at {:.1}s", ctx.elapsed());
+    rep.set("malformed_lines_sent", sent);
+    rep.set("malformed_error_replies", err_replies);
+    rep.set("malformed_connections_dropped", dropped);
+    rep.sample(json!({"family":"sock","line":"{\"id\":7,\"type\":\"sta"}));
+
+    // ---- X1 case list, simplest first ---------------------------------------------------------------
+    let prod_types_quick = ["pause", "resume", "status"];
+    let garble_bases: Vec<String> = if thorough {
+        names.clone()
+    } else {
+        ["io.write", "restart", "shutdown", "pause", "config.set", "status", "pair.start", "set"].iter().map(|s| s.to_string()).filter(|s| names.contains(s)).collect()
+    };
+    // (type, base type whose params are used, is_known)
+    let mut types: Vec<(String, String, bool)> = names.iter().map(|n| (n.clone(), n.clone(), true)).collect();
+    let mut seen_types: BTreeSet<String> = names.iter().cloned().collect();
+    for special in ["", " ", "*", "_", "does.not.exist", "null", "io", "io.", ".write", "status\n", "io.write\r\n", "İO.WRITE", "io．write"] {
+        if seen_types.insert(special.to_string()) {
+            types.push((special.to_string(), "io.write".to_string(), false));
+        }
+    }
+    for b in &garble_bases {
+        for g in garbled(b) {
+            if seen_types.insert(g.clone()) {
+                types.push((g, b.clone(), false));
+            }
+        }
+    }
+    let mut cases: Vec<Value> = Vec::new();
+    for (ty, base_ty, known) in &types {
+        let (spec, _explicit) = table.required(ty);
+        let required = match spec {
+            RoleSpec::Lit(r) => json!({"lit": r}),
+            RoleSpec::Dyn(r) => json!({"dyn": r}),
+        };
+        let mut menu = params_menu(base_ty, thorough && *known, &table);
+        if !*known {
+            // unknown name: absent, {}, and the params that make the base request effective
+            menu.retain(|(n, _)| n == "absent" || n == "min" || (thorough && n == "empty"));
+        }
+        for (pname, params) in &menu {
+            let cfg_list: Vec<Cfg> = if thorough || prod_types_quick.contains(&ty.as_str()) {
+                all_cfgs.clone()
+            } else {
+                cfgs_debugmode.clone()
+            };
+            for c in cfg_list {
+                let creds: Vec<&str> = if c.pairing {
+                    CRED_ORDER.to_vec()
+                } else {
+                    vec!["none", "wrong", "admin", "pair:engineer"]
+                };
+                cases.push(json!({
+                    "kind": "x1", "dir": fast_s, "cfg": c.to_json(), "type": ty, "known": known,
+                    "params_name": pname, "params": params.clone().unwrap_or_else(|| json!({"$absent": true})),
+                    "required": required, "debug_class": table.debug_class(ty), "creds": creds,
+                }));
+            }
+        }
+    }
+    // most informative first (matters only when the wall cap stops the enumeration): effective
+    // params on the fully configured endpoint, then other params, then other configurations,
+    // then unknown names
+    let has_min = |c: &Value| !minimal_params(c["type"].as_str().unwrap_or("")).is_empty();
+    let prio = |c: &Value| -> u8 {
+        let full = c["cfg"]["token"] == true && c["cfg"]["pairing"] == true;
+        let key_params = c["params_name"] == "min" || (c["params_name"] == "absent" && !has_min(c));
+        match (c["known"] == true, full, key_params) {
+            (true, true, true) => 0,
+            (true, true, false) => 1,
+            (true, false, true) => 2,
+            (true, false, false) => 3,
+            (false, true, _) => 4,
+            (false, false, _) => 5,
+        }
+    };
+    cases.sort_by_key(prio);
+    rep.set("x1_request_types", types.len() as u64);
+    rep.set("x1_unknown_or_garbled_types", types.iter().filter(|t| !t.2).count() as u64);
+    rep.set("x1_groups_planned", cases.len() as u64);
+    eprintln!("[C18] {} request types ({} from source), {} groups planned", types.len(), names.len(), cases.len());
+
+    let outs = iso::run_pool(&pool, &cases).map_err(Machinery)?;
+    eprintln!("[C18] X1 done at {:.1}s", ctx.elapsed());
+    let mut x1_viol: Vec<(Violation, String)> = Vec::new(); // (violation, type label)
+    let mut groups_done = 0u64;
+    let mut requests = 0u64;
+    let mut nontrivial = 0u64;
+    let mut classes: BTreeMap<String, u64> = BTreeMap::new();
+    let mut effect_types: BTreeMap<String, BTreeSet<String>> = BTreeMap::new();
+    let mut effect_seen: BTreeSet<(String, bool, bool)> = BTreeSet::new(); // (type, pairing, production) admin effect
+    let mut outcomes: BTreeSet<String> = BTreeSet::new();
+    let mut viewer_reads_ok = 0u64;
+    let mut debug_refused = 0u64;
+    for (case, o) in cases.iter().zip(outs) {
+        let ty = case["type"].as_str().unwrap_or("").to_string();
+        let tl = type_label(&ty);
+        match o {
+            None => {
+                exhaustive = false;
+                continue;
+            }
+            Some(iso::Outcome::Ok(v)) => {
+                if let Some(m) = v["machinery"].as_str() {
+                    return machinery(format!("X1 group failed to build: {m}"));
+                }
+                groups_done += 1;
+                let cfg = Cfg::from_json(&case["cfg"]);
+                let obs = v["obs"].as_array().cloned().unwrap_or_default();
+                let mut any_perf = false;
+                let mut any_ref = false;
+                for ob in &obs {
+                    requests += 1;
+                    let cl = reply_class(ob);
+                    *classes.entry(cl.to_string()).or_insert(0) += 1;
+                    let eff: Vec<String> = ob["effects"].as_array().map(|a| a.iter().filter_map(|x| x.as_str().map(str::to_string)).collect()).unwrap_or_default();
+                    let perf = ob["ok"].as_bool() == Some(true) || !eff.is_empty();
+                    any_perf |= perf;
+                    any_ref |= !perf;
+                    if !eff.is_empty() {
+                        effect_types.entry(ty.clone()).or_default().extend(eff.iter().map(|k| k.split(':').next().unwrap_or(k).to_string()));
+                        if ob["cred"].as_str() == Some("admin") {
+                            effect_seen.insert((ty.clone(), cfg.pairing, cfg.production));
+                        }
+                    }
+                    if ob["cred"].as_str() == Some("pair:viewer") && ob["ok"].as_bool() == Some(true) {
+                        viewer_reads_ok += 1;
+                    }
+                    if cl == "debug disabled" {
+                        debug_refused += 1;
+                    }
+                    outcomes.insert(format!("{cl}/{}", !eff.is_empty()));
+                }
+                if any_perf && any_ref {
+                    nontrivial += 1;
+                }
+                for x in v["violations"].as_array().cloned().unwrap_or_default() {
+                    x1_viol.push((
+                        Violation { signature: x[0].as_str().unwrap_or("C18/?").to_string(), what: x[1].as_str().unwrap_or("").to_string(), case: case.clone() },
+                        tl.clone(),
+                    ));
+                }
+            }
+            Some(iso::Outcome::Panic(m)) => return machinery(format!("engine worker panicked on {}: {m}", clip(&case.to_string(), 200))),
+            Some(iso::Outcome::Died(m)) => x1_viol.push((
+                Violation { signature: format!("C18/process-died/{tl}"), what: format!("the process hosting the endpoint died while serving `{tl}`: {}", clip(&m, 200)), case: case.clone() },
+                tl.clone(),
+            )),
+            Some(iso::Outcome::Timeout) => x1_viol.push((
+                Violation { signature: format!("C18/hang/{tl}"), what: format!("no result within 120 s for request `{tl}` (9 requests on fresh endpoints)"), case: case.clone() },
+                tl.clone(),
+            )),
+        }
+    }
+    if !exhaustive {
+        rep.cap(format!("X1: wall cap reached after {groups_done} of {} groups", cases.len()));
+    }
+    // collapse systemic causes: one (clause, credential class) violated by more than 8 request names
+    let mut by_prefix: BTreeMap<String, BTreeSet<String>> = BTreeMap::new();
+    for (v, tl) in &x1_viol {
+        by_prefix.entry(sig_prefix(&v.signature).to_string()).or_default().insert(tl.clone());
+    }
+    for (mut v, _tl) in x1_viol {
+        let p = sig_prefix(&v.signature).to_string();
+        let set = &by_prefix[&p];
+        if set.len() > 8 {
+            let list: Vec<&String> = set.iter().take(12).collect();
+            v.what = format!("{} request names violate this clause (first: {list:?}); first case: {}", set.len(), v.what);
+            v.signature = format!("{p}/*many");
+        }
+        rep.violation(v);
+    }
+    // non-vacuity of the probes
+    if exhaustive {
+        for (ty, need_pairing, need_prod) in EXPECT_EFFECT {
+            if !names.iter().any(|n| n == ty) {
+                continue;
+            }
+            let seen = effect_seen.iter().any(|(t, p, pr)| t == ty && (!need_pairing || *p) && (!need_prod || *pr));
+            if !seen {
+                return machinery(format!("probe blind: request `{ty}` sent by an admin with effective params showed no effect in any configuration"));
+            }
+        }
+        if viewer_reads_ok == 0 {
+            return machinery("no read request succeeded for the viewer credential (X1 vacuous)");
+        }
+        if debug_refused == 0 {
+            return machinery("no request was refused with `debug disabled` (debug gate family vacuous)");
+        }
+    }
+    rep.set("x1_groups", groups_done);
+    rep.set("x1_requests_on_fresh_endpoints", requests);
+    rep.set("x1_reply_classes", json!(classes));
+    rep.set("x1_distinct_outcomes", outcomes.len() as u64);
+    rep.set("x1_types_with_effect", json!(effect_types.iter().map(|(k, v)| (type_label(k), json!(v))).collect::<Map<String, Value>>()));
+    rep.set("x1_viewer_reads_ok", viewer_reads_ok);
+    rep.set("x1_debug_disabled_refusals", debug_refused);
+    if let Some(c) = cases.iter().find(|c| c["type"] == "io.write" && c["params_name"] == "min") {
+        rep.sample(json!({"family":"x1","type":c["type"],"params":c["params"],"cfg":c["cfg"],"creds":c["creds"]}));
+    }
+    if let Some(c) = cases.iter().find(|c| c["known"] == false && c["params_name"] == "min") {
+        rep.sample(json!({"family":"x1","type":c["type"],"params":c["params"],"cfg":c["cfg"]}));
+    }
+
+    rep.set("evaluations", requests + x2_requests + sent);
+    rep.set("distinct_nontrivial", nontrivial);
+    rep.set("rule", "X1: every request name matched in control/handlers/*.rs, required_role_for_control_request and is_debug_request of the CURRENT source (plus unknown/garbled variants) x per-type params menu {absent, {}, effective params, wrong JSON types, non-object params; thorough: every single-field deletion/type flip/null and every config key x 6 value shapes} x endpoint configuration {auth token set/unset} x {debug on/off} x {pairing store present/absent} x {control mode debug/production (quick: production only for pause/resume/status)} x credential {none, wrong, admin token, pairing token of viewer/operator/engineer/admin, revoked, expired}; each request is ONE line sent over a unix socket to a real ControlServer serving a freshly built ControlState, with state probes before/after. distinct_nontrivial = number of (configuration, type, params) groups in which at least one credential was performed (ok reply or observable effect) AND at least one was refused, i.e. the gate discriminated. X2: BFS by replay over {pair.start, pair.claim(role,code), pair.revoke, clock ticks} with a reference model of valid credentials; in every state every credential is tried at four role levels. Malformed: every byte truncation of three valid request lines, 45 garbage lines, 8 oversized/deeply nested lines on one long-lived connection.");
+    rep.set("exhaustive", exhaustive);
+    rep.set("tier_bounds", json!({"pairing_depth": max_depth, "garbled_bases": garble_bases.len(), "configurations": if thorough { 16 } else { 8 }}));
+    rep.assume("with no auth token configured, credentials other than a valid pairing token are treated as local trusted access (the statement does not constrain them)");
+    rep.assume("a valid pairing token maps to its own role also when no auth token is configured");
+    rep.assume("effects are judged on the probed fields only (see the list of ignored fields at the top of c18.rs); historian is absent, so historian.* only produce error replies");
+    Ok(rep)
+}
+
+fn clone_pool(p: &iso::PoolCfg) -> iso::PoolCfg {
+    iso::PoolCfg { worker: p.worker, procs: p.procs, rlimit_as: p.rlimit_as, per_case: p.per_case, deadline: p.deadline, env: p.env.clone(), stack: p.stack }
 }
